@@ -1,25 +1,953 @@
-//! probe (temporary)
+//! C17 — parallel, push-based and spilling execution equal simple sequential execution.
+//! Runs the real merge functions, morsel generator, accumulators, push operators (against their
+//! pull twins), Pipeline, ParallelPipeline, ExternalSort / SpillableSortPushOperator and
+//! PartitionedState on generated tables and emits, per case, the Coq term comparing the
+//! observation with the model (GV.Par.Run) plus the oracle (single-threaded baseline).
+use grafeo_common::memory::buffer::PressureLevel;
 use grafeo_common::types::{LogicalType, Value};
-use grafeo_core::execution::operators::push::*;
-use grafeo_core::execution::operators::{DistinctOperator, Operator, OperatorResult};
-use grafeo_core::execution::parallel::{merge_sorted_runs, MergeableAccumulator, ParallelChunkSource, ParallelSource};
-use grafeo_core::execution::spill::*;
-use grafeo_core::execution::{DataChunk, ValueVector, Pipeline, Sink, Source, VectorSource, PushOperator};
+use grafeo_core::execution::operators as pull;
+use grafeo_core::execution::operators::push as pu;
+use grafeo_core::execution::operators::{Operator, OperatorError, OperatorResult};
+use grafeo_core::execution::parallel as par;
+use grafeo_core::execution::parallel::ParallelSource;
 use grafeo_core::execution::sink::CollectorSink;
+use grafeo_core::execution::spill as sp;
+use grafeo_core::execution::{DataChunk, Pipeline, PushOperator, Sink, Source, ValueVector, VectorSource};
+use gv_harness::*;
+use std::cmp::Ordering;
 use std::sync::Arc;
 
-fn chunk1(vals: &[Value]) -> DataChunk {
-    DataChunk::new(vec![ValueVector::from_values(vals)])
+const SCRATCH: &str = "/verif/.build/scratch/c17";
+
+// ------------------------------------------------------------------------------------------ values
+#[derive(Clone, Debug, PartialEq)]
+enum V {
+    Null,
+    Bool(bool),
+    Int(i64),
+    Flt(i64),
+    Str(i64),
 }
-fn rows_of(chunks: &[DataChunk]) -> Vec<Vec<Value>> {
-    let mut out = vec![];
-    for c in chunks {
-        for i in c.selected_indices() {
-            out.push((0..c.column_count()).map(|k| c.column(k).and_then(|v| v.get_value(i)).unwrap_or(Value::Null)).collect());
+type Row = Vec<V>;
+
+impl V {
+    fn val(&self) -> Value {
+        match self {
+            V::Null => Value::Null,
+            V::Bool(b) => Value::Bool(*b),
+            V::Int(i) => Value::Int64(*i),
+            V::Flt(z) => Value::Float64(*z as f64),
+            V::Str(z) => Value::String(format!("k{:07}", z).into()),
         }
+    }
+    fn coq(&self) -> String {
+        match self {
+            V::Null => "VNull".into(),
+            V::Bool(b) => format!("(VBool {})", b),
+            V::Int(i) => format!("(VInt {})", coq::z(*i)),
+            V::Flt(i) => format!("(VFlt {})", coq::z(*i)),
+            V::Str(i) => format!("(VStr {})", coq::z(*i)),
+        }
+    }
+    fn kind(&self) -> u8 {
+        match self {
+            V::Null => 0,
+            V::Bool(_) => 1,
+            V::Int(_) => 2,
+            V::Flt(_) => 3,
+            V::Str(_) => 4,
+        }
+    }
+}
+fn from_value(v: &Value) -> V {
+    match v {
+        Value::Null => V::Null,
+        Value::Bool(b) => V::Bool(*b),
+        Value::Int64(i) => V::Int(*i),
+        Value::Float64(f) => {
+            if f.fract() == 0.0 && f.abs() < 9.0e15 {
+                V::Flt(*f as i64)
+            } else {
+                V::Flt(i64::MIN + 7) // not representable in the model: makes the comparison fail
+            }
+        }
+        Value::String(s) => match s.strip_prefix('k').and_then(|t| t.parse::<i64>().ok()) {
+            Some(z) => V::Str(z),
+            None => V::Str(-1),
+        },
+        _ => V::Str(-2),
+    }
+}
+fn vrow(r: &Row) -> Vec<Value> {
+    r.iter().map(V::val).collect()
+}
+fn from_vrow(r: &[Value]) -> Row {
+    r.iter().map(from_value).collect()
+}
+fn coq_row(r: &Row) -> String {
+    coq::list(r.iter().map(V::coq))
+}
+fn coq_rows(rs: &[Row]) -> String {
+    coq::list(rs.iter().map(coq_row))
+}
+fn coq_chunks(cs: &[Vec<Row>]) -> String {
+    coq::list(cs.iter().map(|c| coq_rows(c)))
+}
+fn coq_ochunks(o: &Option<Vec<Vec<Row>>>) -> String {
+    match o {
+        Some(c) => format!("(Some {})", coq_chunks(c)),
+        None => "None".into(),
+    }
+}
+fn to_chunk(rows: &[Row], ncols: usize) -> DataChunk {
+    let cols: Vec<ValueVector> = (0..ncols)
+        .map(|c| ValueVector::from_values(&rows.iter().map(|r| r[c].val()).collect::<Vec<_>>()))
+        .collect();
+    DataChunk::new(cols)
+}
+fn rows_of(c: &DataChunk) -> Vec<Row> {
+    let mut out = vec![];
+    for i in c.selected_indices() {
+        out.push((0..c.column_count()).map(|k| from_value(&c.column(k).and_then(|v| v.get_value(i)).unwrap_or(Value::Null))).collect());
     }
     out
 }
+fn rows_of_chunks(cs: &[DataChunk]) -> Vec<Vec<Row>> {
+    cs.iter().map(rows_of).collect()
+}
+fn flat(cs: &[Vec<Row>]) -> Vec<Row> {
+    cs.iter().flatten().cloned().collect()
+}
+
+// ------------------------------------------------------------------- the code's hash functions
+// (private in /repo; replicated verbatim: DefaultHasher::new() is SipHash-1-3 with zero keys)
+fn hash_value(value: &Value) -> u64 {
+    use std::collections::hash_map::DefaultHasher;
+    use std::hash::{Hash, Hasher};
+    let mut hasher = DefaultHasher::new();
+    match value {
+        Value::Null => 0u8.hash(&mut hasher),
+        Value::Bool(b) => b.hash(&mut hasher),
+        Value::Int64(i) => i.hash(&mut hasher),
+        Value::Float64(f) => f.to_bits().hash(&mut hasher),
+        Value::String(s) => s.hash(&mut hasher),
+        _ => 0u8.hash(&mut hasher),
+    }
+    hasher.finish()
+}
+fn hash_row(row: &[Value]) -> u64 {
+    use std::collections::hash_map::DefaultHasher;
+    use std::hash::{Hash, Hasher};
+    let mut hasher = DefaultHasher::new();
+    for value in row {
+        match value {
+            Value::Null => 0u8.hash(&mut hasher),
+            Value::Bool(b) => b.hash(&mut hasher),
+            Value::Int64(i) => i.hash(&mut hasher),
+            Value::Float64(f) => f.to_bits().hash(&mut hasher),
+            Value::String(s) => s.hash(&mut hasher),
+            _ => 0u8.hash(&mut hasher),
+        }
+    }
+    hasher.finish()
+}
+fn hash_key(key: &[Value]) -> u64 {
+    use std::hash::{Hash, Hasher};
+    let mut hasher = std::collections::hash_map::DefaultHasher::new();
+    for value in key {
+        match value {
+            Value::Null => 0u8.hash(&mut hasher),
+            Value::Bool(b) => {
+                1u8.hash(&mut hasher);
+                b.hash(&mut hasher);
+            }
+            Value::Int64(n) => {
+                2u8.hash(&mut hasher);
+                n.hash(&mut hasher);
+            }
+            Value::Float64(f) => {
+                3u8.hash(&mut hasher);
+                f.to_bits().hash(&mut hasher);
+            }
+            Value::String(s) => {
+                4u8.hash(&mut hasher);
+                s.hash(&mut hasher);
+            }
+            _ => 9u8.hash(&mut hasher),
+        }
+    }
+    hasher.finish()
+}
+fn hashes_of(r: &Row) -> Vec<u64> {
+    r.iter().map(|v| hash_value(&v.val())).collect()
+}
+fn coq_hrow(r: &Row) -> String {
+    format!("({}, {})", coq::zlist_u64(&hashes_of(r)), coq_row(r))
+}
+fn coq_hrows(rs: &[Row]) -> String {
+    coq::list(rs.iter().map(coq_hrow))
+}
+fn coq_hchunks(cs: &[Vec<Row>]) -> String {
+    coq::list(cs.iter().map(|c| coq_hrows(c)))
+}
+/// premise of the DISTINCT model: the 64-bit hashes are injective on the values of this run.
+/// 0 = injective, 1 = the only collision is NULL / FALSE (finding C17-K8), 2 = another collision
+fn hash_class(rows: &[Row]) -> u8 {
+    let mut seen: std::collections::HashMap<u64, V> = std::collections::HashMap::new();
+    let mut class = 0;
+    for r in rows {
+        for v in r {
+            let h = hash_value(&v.val());
+            if let Some(w) = seen.get(&h) {
+                if w != v {
+                    let nf = matches!((w, v), (V::Null, V::Bool(false)) | (V::Bool(false), V::Null));
+                    class = class.max(if nf { 1 } else { 2 });
+                }
+            } else {
+                seen.insert(h, v.clone());
+            }
+        }
+    }
+    class
+}
+fn k8_term(rows: &[Row]) -> String {
+    format!("k_null_and_false {}", coq_rows(rows))
+}
+fn hash_tag(c: u8) -> String {
+    ["hash:injective", "hash:null=false", "hash:COLLISION"][c as usize].to_string()
+}
+
+// ------------------------------------------------------------------------------ sort keys (mirror)
+#[derive(Clone, Debug)]
+struct Key {
+    col: usize,
+    asc: bool,
+    nf: bool,
+}
+fn coq_keys(ks: &[Key]) -> String {
+    coq::list(ks.iter().map(|k| format!("(sk {} {} {})", coq::z(k.col as i64), k.asc, k.nf)))
+}
+fn cmp_vals(a: &V, b: &V) -> Ordering {
+    match (a, b) {
+        (V::Bool(x), V::Bool(y)) => x.cmp(y),
+        (V::Int(x), V::Int(y)) | (V::Flt(x), V::Flt(y)) | (V::Str(x), V::Str(y)) => x.cmp(y),
+        _ => Ordering::Equal,
+    }
+}
+/// the harness's own row comparison (baseline): NULLs first/last, same-kind natural order
+fn cmp_rows(keys: &[Key], a: &Row, b: &Row) -> Ordering {
+    for k in keys {
+        let (x, y) = (&a[k.col], &b[k.col]);
+        let o = match (x, y) {
+            (V::Null, V::Null) => Ordering::Equal,
+            (V::Null, _) => {
+                if k.nf {
+                    Ordering::Less
+                } else {
+                    Ordering::Greater
+                }
+            }
+            (_, V::Null) => {
+                if k.nf {
+                    Ordering::Greater
+                } else {
+                    Ordering::Less
+                }
+            }
+            _ => cmp_vals(x, y),
+        };
+        let o = if k.asc { o } else { o.reverse() };
+        if o != Ordering::Equal {
+            return o;
+        }
+    }
+    Ordering::Equal
+}
+fn stable_sorted(keys: &[Key], rows: &[Row]) -> Vec<Row> {
+    let mut v = rows.to_vec();
+    v.sort_by(|a, b| cmp_rows(keys, a, b));
+    v
+}
+fn is_sorted(keys: &[Key], rows: &[Row]) -> bool {
+    rows.windows(2).all(|w| cmp_rows(keys, &w[0], &w[1]) != Ordering::Greater)
+}
+fn canon(rows: &[Row]) -> Vec<String> {
+    let mut v: Vec<String> = rows.iter().map(|r| format!("{:?}", r)).collect();
+    v.sort();
+    v
+}
+fn same_bag(a: &[Row], b: &[Row]) -> bool {
+    canon(a) == canon(b)
+}
+fn par_keys(ks: &[Key]) -> Vec<par::SortKey> {
+    ks.iter().map(|k| par::SortKey { column: k.col, ascending: k.asc, nulls_first: k.nf }).collect()
+}
+fn push_keys(ks: &[Key]) -> Vec<pu::SortKey> {
+    ks.iter()
+        .map(|k| pu::SortKey {
+            column: k.col,
+            direction: if k.asc { pu::SortDirection::Ascending } else { pu::SortDirection::Descending },
+            null_order: if k.nf { pu::NullOrder::First } else { pu::NullOrder::Last },
+        })
+        .collect()
+}
+fn spill_keys(ks: &[Key]) -> Vec<sp::SortKey> {
+    ks.iter()
+        .map(|k| sp::SortKey {
+            column: k.col,
+            direction: if k.asc { sp::SortDirection::Ascending } else { sp::SortDirection::Descending },
+            null_order: if k.nf { sp::NullOrder::First } else { sp::NullOrder::Last },
+        })
+        .collect()
+}
+fn pull_keys(ks: &[Key]) -> Vec<pull::SortKey> {
+    ks.iter()
+        .map(|k| pull::SortKey {
+            column: k.col,
+            direction: if k.asc { pull::SortDirection::Ascending } else { pull::SortDirection::Descending },
+            null_order: if k.nf { pull::NullOrder::NullsFirst } else { pull::NullOrder::NullsLast },
+        })
+        .collect()
+}
+
+// ------------------------------------------------------------------------------------- generators
+fn gen_val(r: &mut Rng, kind: u8, dom: u64, null_pct: u64) -> V {
+    if r.below(100) < null_pct {
+        return V::Null;
+    }
+    let z = r.below(dom.max(1)) as i64;
+    match kind {
+        1 => V::Bool(z % 2 == 1),
+        2 => V::Int(z - (dom / 2) as i64),
+        3 => V::Flt(z - (dom / 2) as i64),
+        _ => V::Str(z),
+    }
+}
+/// table with key column 0 (duplicates, NULLs), unique id column 1, second key column 2
+fn gen_table(r: &mut Rng, n: usize) -> (Vec<Row>, u8) {
+    let kind = 1 + r.below(4) as u8;
+    let kind2 = 1 + r.below(4) as u8;
+    let dom = *r.pick(&[1u64, 2, 3, 5, 8, 50]);
+    let nullp = *r.pick(&[0u64, 0, 15, 40]);
+    let rows = (0..n).map(|i| vec![gen_val(r, kind, dom, nullp), V::Int(i as i64), gen_val(r, kind2, 3, 10)]).collect();
+    (rows, kind)
+}
+fn gen_keys(r: &mut Rng) -> Vec<Key> {
+    let mut ks = vec![Key { col: 0, asc: r.chance(2, 3), nf: r.chance(1, 2) }];
+    if r.chance(1, 4) {
+        ks.push(Key { col: 2, asc: r.chance(1, 2), nf: r.chance(1, 2) });
+    }
+    if r.chance(1, 25) {
+        ks.clear();
+    }
+    ks
+}
+fn gen_size(r: &mut Rng, max: usize) -> usize {
+    match r.below(8) {
+        0 => 0,
+        1 => 1,
+        2 => 2,
+        _ => r.below(max as u64 + 1) as usize,
+    }
+}
+/// random cut of rows into chunks (possibly with empty chunks)
+fn gen_chunking(r: &mut Rng, rows: &[Row]) -> Vec<Vec<Row>> {
+    let mut cs = vec![];
+    let mut i = 0;
+    let maxc = *r.pick(&[1usize, 2, 3, 5, 8, 100]);
+    while i < rows.len() {
+        if r.chance(1, 10) {
+            cs.push(vec![]);
+        }
+        let l = 1 + r.below(maxc as u64) as usize;
+        let e = (i + l).min(rows.len());
+        cs.push(rows[i..e].to_vec());
+        i = e;
+    }
+    if r.chance(1, 10) {
+        cs.push(vec![]);
+    }
+    cs
+}
+fn has_dup_keys(keys: &[Key], rows: &[Row]) -> bool {
+    let s = stable_sorted(keys, rows);
+    s.windows(2).any(|w| cmp_rows(keys, &w[0], &w[1]) == Ordering::Equal)
+}
+fn ok_or(b: bool) -> Oracle {
+    if b { Oracle::Ok } else { Oracle::Fail }
+}
+
+// ---------------------------------------------------------------------------------------- merge.rs
+fn case_merge_runs(r: &mut Rng, out: &mut Out, forced: Option<(Vec<Key>, Vec<Vec<Row>>)>) {
+    let corpus = forced.is_some();
+    let (keys, runs) = match forced {
+        Some(x) => x,
+        None => {
+            let keys = gen_keys(r);
+            let k = *r.pick(&[0usize, 1, 2, 2, 3, 3, 4, 5, 8]);
+            let total = r.below(30) as usize;
+            let (rows, _) = gen_table(r, total);
+            let mut runs: Vec<Vec<Row>> = vec![vec![]; k];
+            if k > 0 {
+                for row in rows {
+                    let i = r.below(k as u64) as usize;
+                    runs[i].push(row);
+                }
+            }
+            (keys.clone(), runs.iter().map(|x| stable_sorted(&keys, x)).collect())
+        }
+    };
+    let vruns: Vec<Vec<Vec<Value>>> = runs.iter().map(|x| x.iter().map(vrow).collect()).collect();
+    let got: Vec<Row> = par::merge_sorted_runs(vruns, &par_keys(&keys)).unwrap().iter().map(|x| from_vrow(x)).collect();
+    let all = flat(&runs);
+    let stable = stable_sorted(&keys, &all);
+    let ne = runs.iter().filter(|x| !x.is_empty()).count();
+    let (oracle, msg, kid, kcoq) = if !runs.iter().all(|x| is_sorted(&keys, x)) {
+        (Oracle::Na, "premise violated: a run is not sorted".to_string(), None, None)
+    } else if got == stable {
+        (Oracle::Ok, String::new(), None, None)
+    } else if is_sorted(&keys, &got) && same_bag(&got, &all) {
+        (
+            Oracle::Fail,
+            "merge output is sorted but rows with equal keys are not in run order (differs from the stable sort of the concatenation)".into(),
+            Some("C17-K1".to_string()),
+            Some(format!("k_merge_ties {} {}", coq_keys(&keys), coq_chunks(&runs))),
+        )
+    } else {
+        (Oracle::Fail, "merge output is not a sorted permutation of the runs".into(), None, None)
+    };
+    out.emit(&Case {
+        kind: "merge_runs".into(),
+        input: format!("keys={:?} runs={:?}", keys, runs),
+        coq: Some(format!("chk_merge_runs {} {} {}", coq_keys(&keys), coq_chunks(&runs), coq_rows(&got))),
+        show: Some(format!("show_merge_runs {} {}", coq_keys(&keys), coq_chunks(&runs))),
+        oracle,
+        msg,
+        kid,
+        kcoq,
+        nontrivial: ne >= 2 && has_dup_keys(&keys, &all),
+        imp: format!("{:?}", got),
+        tags: vec![format!("merge:k={}", runs.len().min(6)), if corpus { "corpus".into() } else { format!("merge:nkeys={}", keys.len()) }],
+        ..Default::default()
+    });
+}
+
+fn case_merge_chunks(r: &mut Rng, out: &mut Out) {
+    let keys = gen_keys(r);
+    let k = *r.pick(&[0usize, 1, 2, 3, 4]);
+    let total = r.below(24) as usize;
+    let (rows, _) = gen_table(r, total);
+    let mut runs: Vec<Vec<Row>> = vec![vec![]; k];
+    if k > 0 {
+        for row in rows {
+            let i = r.below(k as u64) as usize;
+            runs[i].push(row);
+        }
+    }
+    let runs: Vec<Vec<Vec<Row>>> = runs.iter().map(|x| gen_chunking(r, &stable_sorted(&keys, x))).collect();
+    let cs = *r.pick(&[0usize, 1, 2, 3, 7, 2048]);
+    let druns: Vec<Vec<DataChunk>> = runs.iter().map(|cs| cs.iter().map(|c| to_chunk(c, 3)).collect()).collect();
+    let pk = par_keys(&keys);
+    let got = catch(std::panic::AssertUnwindSafe(move || par::merge_sorted_chunks(druns, &pk, cs).unwrap())).ok().map(|c| rows_of_chunks(&c));
+    let all: Vec<Row> = runs.iter().flat_map(|c| flat(c)).collect();
+    let runs_flat: Vec<Vec<Row>> = runs.iter().map(|c| flat(c)).collect();
+    let (oracle, msg, kid, kcoq) = match &got {
+        None => (if cs == 0 && !all.is_empty() { Oracle::Na } else { Oracle::Fail }, "panic".to_string(), None, None),
+        Some(g) => {
+            let f = flat(g);
+            let sizes_ok = g.iter().all(|c| !c.is_empty() && c.len() <= cs) && g.iter().rev().skip(1).all(|c| c.len() == cs);
+            if !sizes_ok {
+                (Oracle::Fail, "chunk sizes".to_string(), None, None)
+            } else if f == stable_sorted(&keys, &all) {
+                (Oracle::Ok, String::new(), None, None)
+            } else if is_sorted(&keys, &f) && same_bag(&f, &all) {
+                (Oracle::Fail, "ties not in run order".to_string(), Some("C17-K1".to_string()), Some(format!("k_merge_ties {} {}", coq_keys(&keys), coq_chunks(&runs_flat))))
+            } else {
+                (Oracle::Fail, "not a sorted permutation".to_string(), None, None)
+            }
+        }
+    };
+    out.emit(&Case {
+        kind: "merge_chunks".into(),
+        input: format!("keys={:?} chunk_size={} runs={:?}", keys, cs, runs),
+        coq: Some(format!("chk_merge_chunks {} {} {} {}", coq_keys(&keys), coq::list(runs.iter().map(|c| coq_chunks(c))), coq::z(cs as i64), coq_ochunks(&got))),
+        oracle,
+        msg,
+        kid,
+        kcoq,
+        nontrivial: k >= 2 && has_dup_keys(&keys, &all),
+        imp: format!("{:?}", got),
+        tags: vec![format!("chunk_size:{}", cs)],
+        ..Default::default()
+    });
+}
+
+fn gen_compact(cnt: i64, a: i64, b: i64, m: i64) -> Vec<Vec<Value>> {
+    (0..cnt).map(|i| vec![Value::Int64(i), Value::Int64((a * i + b).rem_euclid(m))]).collect()
+}
+
+fn case_rows_to_chunks(r: &mut Rng, out: &mut Out, cnt: i64, cs: usize) {
+    let (a, b, m) = (r.range(1, 50), r.range(0, 50), r.range(1, 20));
+    let rows = gen_compact(cnt, a, b, m);
+    let got = par::rows_to_chunks(rows, cs).unwrap();
+    let lens: Vec<i64> = got.iter().map(|c| c.len() as i64).collect();
+    let ids: Vec<i64> = got.iter().flat_map(|c| rows_of(c)).map(|r| if let V::Int(i) = r[0] { i } else { -1 }).collect();
+    let good = ids == (0..cnt).collect::<Vec<_>>() && lens.iter().all(|&l| l > 0 && l <= cs as i64);
+    out.emit(&Case {
+        kind: "rows_to_chunks".into(),
+        input: format!("cnt={} a={} b={} m={} chunk_size={}", cnt, a, b, m, cs),
+        coq: Some(format!("chk_rows_to_chunks_gen {} {} {} {} {} {} {}", coq::z(cnt), coq::z(a), coq::z(b), coq::z(m), coq::z(cs as i64), coq::zlist_i64(&lens), coq::zlist_i64(&ids))),
+        oracle: ok_or(good),
+        nontrivial: cnt as usize > cs,
+        imp: format!("lens={:?}", lens),
+        tags: vec![format!("r2c:cnt={} cs={}", cnt, cs)],
+        ..Default::default()
+    });
+}
+
+fn gen_results(r: &mut Rng) -> Vec<Vec<Vec<Row>>> {
+    let w = r.below(5) as usize;
+    let kind = 1 + r.below(4) as u8;
+    let dom = *r.pick(&[2u64, 3, 6]);
+    (0..w)
+        .map(|_| {
+            let n = gen_size(r, 10);
+            let rows: Vec<Row> = (0..n).map(|_| vec![gen_val(r, kind, dom, 15), gen_val(r, 2, 2, 10)]).collect();
+            gen_chunking(r, &rows)
+        })
+        .collect()
+}
+fn dchunks(res: &[Vec<Vec<Row>>], ncols: usize) -> Vec<Vec<DataChunk>> {
+    res.iter().map(|cs| cs.iter().map(|c| to_chunk(c, ncols)).collect()).collect()
+}
+
+fn case_concat(r: &mut Rng, out: &mut Out) {
+    let res = gen_results(r);
+    let got = rows_of_chunks(&par::concat_parallel_results(dchunks(&res, 2)));
+    let all: Vec<Row> = res.iter().flat_map(|c| flat(c)).collect();
+    out.emit(&Case {
+        kind: "concat".into(),
+        input: format!("{:?}", res),
+        coq: Some(format!("chk_concat {} {}", coq::list(res.iter().map(|c| coq_chunks(c))), coq_chunks(&got))),
+        oracle: ok_or(flat(&got) == all),
+        nontrivial: res.len() >= 2,
+        imp: format!("{:?}", got),
+        ..Default::default()
+    });
+}
+
+fn first_occurrences(rows: &[Row]) -> Vec<Row> {
+    let mut seen: Vec<Row> = vec![];
+    for r in rows {
+        if !seen.contains(r) {
+            seen.push(r.clone());
+        }
+    }
+    seen
+}
+
+fn case_merge_distinct(r: &mut Rng, out: &mut Out) {
+    let res = gen_results(r);
+    let got = rows_of_chunks(&par::merge_distinct_results(dchunks(&res, 2)).unwrap());
+    let all: Vec<Row> = res.iter().flat_map(|c| flat(c)).collect();
+    // premise: hash_row injective on the rows of the run (NULL / FALSE collide: C17-K8)
+    let mut class = 0u8;
+    for a in &all {
+        for b in &all {
+            if a != b && hash_row(&vrow(a)) == hash_row(&vrow(b)) {
+                let nf = a.iter().zip(b.iter()).all(|(x, y)| x == y || matches!((x, y), (V::Null, V::Bool(false)) | (V::Bool(false), V::Null)));
+                class = class.max(if nf { 1 } else { 2 });
+            }
+        }
+    }
+    let good = flat(&got) == first_occurrences(&all);
+    let hres = coq::list(res.iter().map(|cs| coq::list(cs.iter().map(|c| coq::list(c.iter().map(|row| format!("({}, {})", coq::zu(hash_row(&vrow(row))), coq_row(row))))))));
+    out.emit(&Case {
+        kind: "merge_distinct".into(),
+        input: format!("{:?}", res),
+        coq: Some(format!("chk_merge_distinct {} (Some {})", hres, coq_chunks(&got))),
+        oracle: if class == 2 { Oracle::Na } else { ok_or(good) },
+        msg: if good { String::new() } else { "merge_distinct_results drops a row that differs from all earlier rows (NULL and FALSE hash alike)".into() },
+        kid: if !good && class == 1 { Some("C17-K8".into()) } else { None },
+        kcoq: if !good && class == 1 { Some(k8_term(&all)) } else { None },
+        nontrivial: res.len() >= 2 && first_occurrences(&all).len() < all.len(),
+        imp: format!("{:?}", got),
+        tags: vec![hash_tag(class)],
+        ..Default::default()
+    });
+}
+
+// --------------------------------------------------------------------------------------- morsel.rs
+fn case_morsels(r: &mut Rng, out: &mut Out, forced: Option<(u64, u64)>) {
+    let (total, size) = match forced {
+        Some(x) => x,
+        None => {
+            let total = match r.below(4) {
+                0 => *r.pick(&[0u64, 1, 2, 1023, 1024, 1025, 2047, 2048, 2049, 65535, 65536, 65537]),
+                1 => r.below(40),
+                _ => r.below(200000),
+            };
+            let size = match r.below(6) {
+                0 => *r.pick(&[0u64, 1, 2, 1023, 1024, 1025, 2048, 16384, 32768, 65536]),
+                1 => total.saturating_sub(1),
+                2 => total,
+                3 => total + 1 + r.below(3),
+                4 => *r.pick(&[u64::MAX, u64::MAX - 1, u64::MAX - total, (u64::MAX - total).wrapping_add(1), 1 << 63]),
+                _ => 1 + r.below(total.max(1) * 2),
+            };
+            // keep the printed list small
+            let size = if size > 0 && total / size > 1500 { total / 1500 + 1 } else { size };
+            (total, size)
+        }
+    };
+    let src = r.below(4);
+    let got = catch(move || par::generate_morsels(total as usize, size as usize, src as usize)).ok();
+    let term = match &got {
+        None => "None".to_string(),
+        Some(ms) => format!("(Some {})", coq::list(ms.iter().map(|m| format!("(mkm {} {} {} {})", coq::zu(m.id as u64), coq::zu(m.source_id as u64), coq::zu(m.start_row as u64), coq::zu(m.end_row as u64))))),
+    };
+    // the property on the implementation's own output
+    let oracle = match &got {
+        None => {
+            if (total as u128 + size as u128) < (1u128 << 64) { Oracle::Fail } else { Oracle::Na }
+        }
+        Some(ms) => {
+            if total == 0 || size == 0 {
+                ok_or(ms.is_empty())
+            } else {
+                let mut lo = 0usize;
+                let mut good = true;
+                for (i, m) in ms.iter().enumerate() {
+                    good &= m.id == i && m.start_row == lo && m.end_row > lo && m.end_row - lo <= size as usize;
+                    lo = m.end_row;
+                }
+                ok_or(good && lo == total as usize)
+            }
+        }
+    };
+    out.emit(&Case {
+        kind: "morsels".into(),
+        input: format!("total={} size={} src={}", total, size, src),
+        coq: Some(format!("chk_morsels {} {} {} {}", coq::zu(total), coq::zu(size), coq::zu(src), term)),
+        oracle,
+        msg: if got.is_none() { "panic (usize overflow in total_rows + morsel_size)".into() } else { String::new() },
+        nontrivial: size > 0 && total > size,
+        imp: match &got {
+            None => "panic".into(),
+            Some(ms) => format!("{} morsels", ms.len()),
+        },
+        tags: vec![
+            (if size == 0 { "morsel:size=0" } else if size < 1024 { "morsel:size<MIN" } else if size > total { "morsel:size>input" } else { "morsel:size-mid" }).to_string(),
+            (if got.is_none() { "morsel:panic" } else { "morsel:ok" }).to_string(),
+        ],
+        ..Default::default()
+    });
+}
+
+fn pressure(p: u64) -> PressureLevel {
+    match p {
+        0 => PressureLevel::Normal,
+        1 => PressureLevel::Moderate,
+        2 => PressureLevel::High,
+        _ => PressureLevel::Critical,
+    }
+}
+
+fn case_morsel_size(r: &mut Rng, out: &mut Out) {
+    let p = r.below(4);
+    let base = match r.below(3) {
+        0 => *r.pick(&[0u64, 1, 1023, 1024, 1025, 2047, 2048, 4095, 4096, 4097, 65536]),
+        1 => r.below(10000),
+        _ => r.below(1 << 40),
+    };
+    let s = par::compute_morsel_size(pressure(p));
+    let wb = par::compute_morsel_size_with_base(base as usize, pressure(p));
+    let cfg = par::ParallelPipelineConfig { num_workers: 2, morsel_size: base as usize, chunk_size: 2048, preserve_order: false, pressure_level: pressure(p) };
+    let eff = cfg.effective_morsel_size();
+    out.emit(&Case {
+        kind: "morsel_size".into(),
+        input: format!("pressure={} base={}", p, base),
+        coq: Some(format!("chk_morsel_size {} {} {} {} {}", coq::zu(p), coq::zu(base), coq::zu(s as u64), coq::zu(wb as u64), coq::zu(eff as u64))),
+        oracle: Oracle::Na,
+        nontrivial: p > 0,
+        imp: format!("size={} with_base={} effective={}", s, wb, eff),
+        ..Default::default()
+    });
+}
+
+// ---------------------------------------------------------------------------- MergeableAccumulator
+enum Tree {
+    Leaf(Vec<V>),
+    Node(Box<Tree>, Box<Tree>),
+}
+fn gen_tree(r: &mut Rng, vals: &[V], depth: u32) -> Tree {
+    if depth > 5 || vals.len() <= 1 && r.chance(2, 3) || r.chance(1, 4) {
+        return Tree::Leaf(vals.to_vec());
+    }
+    let cut = r.below(vals.len() as u64 + 1) as usize;
+    Tree::Node(Box::new(gen_tree(r, &vals[..cut], depth + 1)), Box::new(gen_tree(r, &vals[cut..], depth + 1)))
+}
+fn tree_coq(t: &Tree) -> String {
+    match t {
+        Tree::Leaf(v) => format!("(Leaf {})", coq::list(v.iter().map(V::coq))),
+        Tree::Node(l, rr) => format!("(Node {} {})", tree_coq(l), tree_coq(rr)),
+    }
+}
+fn tree_eval(t: &Tree) -> par::MergeableAccumulator {
+    match t {
+        Tree::Leaf(v) => {
+            let mut a = par::MergeableAccumulator::new();
+            for x in v {
+                a.add(&x.val());
+            }
+            a
+        }
+        Tree::Node(l, rr) => {
+            let mut a = tree_eval(l);
+            a.merge(&tree_eval(rr));
+            a
+        }
+    }
+}
+fn tree_leaves(t: &Tree) -> usize {
+    match t {
+        Tree::Leaf(_) => 1,
+        Tree::Node(l, r) => tree_leaves(l) + tree_leaves(r),
+    }
+}
+fn f2z(f: f64) -> i64 {
+    if f.fract() == 0.0 && f.abs() < 9.0e15 { f as i64 } else { i64::MIN + 7 }
+}
+fn oval(o: &Option<Value>) -> String {
+    coq::opt(o.as_ref().map(|v| from_value(v).coq()))
+}
+fn acc_coq(a: &par::MergeableAccumulator) -> String {
+    format!("(mkacc {} {} {} {} {} {})", coq::z(a.count), coq::z(f2z(a.sum)), coq::z(f2z(a.sum_squared)), oval(&a.min), oval(&a.max), oval(&a.first))
+}
+
+fn case_accum(r: &mut Rng, out: &mut Out, forced: Option<Vec<Vec<V>>>) {
+    let (vals, tree) = match forced {
+        Some(parts) => {
+            let vals: Vec<V> = parts.iter().flatten().cloned().collect();
+            let mut t = Tree::Leaf(parts[0].clone());
+            for p in &parts[1..] {
+                t = Tree::Node(Box::new(t), Box::new(Tree::Leaf(p.clone())));
+            }
+            (vals, t)
+        }
+        None => {
+            let n = gen_size(r, 14);
+            let mixed = r.chance(1, 6);
+            let kind = 1 + r.below(4) as u8;
+            let dom = *r.pick(&[2u64, 5, 1000]);
+            let nullp = *r.pick(&[0u64, 20, 60]);
+            let vals: Vec<V> = (0..n)
+                .map(|_| {
+                    let k = if mixed { 1 + r.below(4) as u8 } else { kind };
+                    gen_val(r, k, dom, nullp)
+                })
+                .collect();
+            let t = gen_tree(r, &vals, 0);
+            (vals, t)
+        }
+    };
+    let mut seq = par::MergeableAccumulator::new();
+    for v in &vals {
+        seq.add(&v.val());
+    }
+    let par_acc = tree_eval(&tree);
+    let fins = |a: &par::MergeableAccumulator| {
+        let avg = a.finalize_avg();
+        let avg_s = match avg {
+            Value::Null => "None".to_string(),
+            Value::Float64(f) if f.to_bits() == (a.sum / a.count as f64).to_bits() => format!("(Some ({}, {}))", coq::z(f2z(a.sum)), coq::z(a.count)),
+            _ => "(Some (0, 0))".to_string(),
+        };
+        (
+            vec![from_value(&a.finalize_count()), from_value(&a.finalize_sum()), from_value(&a.finalize_min()), from_value(&a.finalize_max()), from_value(&a.finalize_first())],
+            avg_s,
+            avg,
+        )
+    };
+    let (fs, _, avs) = fins(&seq);
+    let (fp, avg_p, avp) = fins(&par_acc);
+    let same = fs == fp && format!("{:?}", avs) == format!("{:?}", avp);
+    let kinds: std::collections::BTreeSet<u8> = vals.iter().map(V::kind).filter(|&k| k != 0).collect();
+    out.emit(&Case {
+        kind: "accum".into(),
+        input: format!("tree={}", tree_coq(&tree)),
+        coq: Some(format!("chk_accum {} {} {} {} {} {} {} {} {}", tree_coq(&tree), acc_coq(&seq), acc_coq(&par_acc), fp[0].coq(), fp[1].coq(), fp[2].coq(), fp[3].coq(), fp[4].coq(), avg_p)),
+        oracle: ok_or(same),
+        msg: if same { String::new() } else { format!("sequential finalizers {:?} differ from merged {:?}", fs, fp) },
+        kid: if same { None } else { Some("C17-K2".into()) },
+        kcoq: if same { None } else { Some(format!("k_accum_mixed {}", tree_coq(&tree))) },
+        nontrivial: tree_leaves(&tree) >= 2 && vals.len() >= 2,
+        imp: format!("seq={:?} merged={:?}", fs, fp),
+        tags: vec![format!("accum:kinds={}", kinds.len()), format!("accum:leaves={}", tree_leaves(&tree).min(5))],
+        ..Default::default()
+    });
+}
+
+// ---------------------------------------------------------------------------------- push operators
+#[derive(Clone, Debug)]
+enum Pred {
+    Cmp(usize, u8, V), // op: 0 Eq 1 Ne 2 Lt 3 Le 4 Gt 5 Ge
+    NotNull(usize),
+    And(Box<Pred>, Box<Pred>),
+    Or(Box<Pred>, Box<Pred>),
+}
+fn pred_coq(p: &Pred) -> String {
+    match p {
+        Pred::Cmp(c, op, v) => format!("(pcmp {} {} {})", coq::z(*c as i64), ["CEq", "CNe", "CLt", "CLe", "CGt", "CGe"][*op as usize], v.coq()),
+        Pred::NotNull(c) => format!("(pnotnull {})", coq::z(*c as i64)),
+        Pred::And(a, b) => format!("(PAnd {} {})", pred_coq(a), pred_coq(b)),
+        Pred::Or(a, b) => format!("(POr {} {})", pred_coq(a), pred_coq(b)),
+    }
+}
+/// harness baseline of the predicate semantics
+fn pred_eval(p: &Pred, row: &Row) -> bool {
+    match p {
+        Pred::Cmp(c, op, v) => {
+            let Some(x) = row.get(*c) else { return false };
+            let cmp = if x.kind() == v.kind() && x.kind() != 0 { Some(cmp_vals(x, v)) } else { None };
+            match op {
+                0 => x == v,
+                1 => x != v,
+                2 => cmp == Some(Ordering::Less),
+                3 => matches!(cmp, Some(Ordering::Less | Ordering::Equal)),
+                4 => cmp == Some(Ordering::Greater),
+                _ => matches!(cmp, Some(Ordering::Greater | Ordering::Equal)),
+            }
+        }
+        Pred::NotNull(c) => row.get(*c).is_some_and(|x| *x != V::Null),
+        Pred::And(a, b) => pred_eval(a, row) && pred_eval(b, row),
+        Pred::Or(a, b) => pred_eval(a, row) || pred_eval(b, row),
+    }
+}
+struct DynPred(Box<dyn pu::FilterPredicate>);
+impl pu::FilterPredicate for DynPred {
+    fn evaluate(&self, chunk: &DataChunk, row: usize) -> bool {
+        self.0.evaluate(chunk, row)
+    }
+}
+fn pred_real(p: &Pred) -> Box<dyn pu::FilterPredicate> {
+    match p {
+        Pred::Cmp(c, op, v) => Box::new(pu::ColumnPredicate {
+            column: *c,
+            op: [pu::CompareOp::Eq, pu::CompareOp::Ne, pu::CompareOp::Lt, pu::CompareOp::Le, pu::CompareOp::Gt, pu::CompareOp::Ge][*op as usize],
+            value: v.val(),
+        }),
+        Pred::NotNull(c) => Box::new(pu::NotNullPredicate::new(*c)),
+        Pred::And(a, b) => Box::new(pu::AndPredicate::new(DynPred(pred_real(a)), DynPred(pred_real(b)))),
+        Pred::Or(a, b) => Box::new(pu::OrPredicate::new(DynPred(pred_real(a)), DynPred(pred_real(b)))),
+    }
+}
+/// predicate for the pull FilterOperator: the same real push predicate evaluated per row
+struct PullPred(Box<dyn pu::FilterPredicate>);
+impl pull::Predicate for PullPred {
+    fn evaluate(&self, chunk: &DataChunk, row: usize) -> bool {
+        self.0.evaluate(chunk, row)
+    }
+}
+fn gen_pred(r: &mut Rng, kind: u8, depth: u32) -> Pred {
+    if depth < 2 && r.chance(1, 4) {
+        let a = gen_pred(r, kind, depth + 1);
+        let b = gen_pred(r, kind, depth + 1);
+        return if r.chance(1, 2) { Pred::And(Box::new(a), Box::new(b)) } else { Pred::Or(Box::new(a), Box::new(b)) };
+    }
+    match r.below(10) {
+        0 => Pred::NotNull(*r.pick(&[0usize, 2, 7])),
+        1 => Pred::Cmp(1, r.below(6) as u8, V::Int(r.range(0, 30))),
+        2 => {
+            let k2 = 1 + r.below(4) as u8;
+            Pred::Cmp(0, r.below(6) as u8, gen_val(r, k2, 4, 20))
+        }
+        _ => Pred::Cmp(0, r.below(6) as u8, gen_val(r, kind, 6, 5)),
+    }
+}
+
+#[derive(Clone, Debug)]
+enum Op {
+    Filter(Pred),
+    Limit(usize),
+    Distinct(Option<Vec<usize>>),
+    Sort(Vec<Key>),
+    Project(Vec<usize>),
+}
+fn op_coq(o: &Op) -> String {
+    match o {
+        Op::Filter(p) => format!("(KFilter {})", pred_coq(p)),
+        Op::Limit(n) => format!("(KLimit {})", coq::z(*n as i64)),
+        Op::Distinct(None) => "kdistinct_all".into(),
+        Op::Distinct(Some(c)) => format!("(kdistinct_on {})", coq::list(c.iter().map(|&x| coq::z(x as i64)))),
+        Op::Sort(k) => format!("(KSort {})", coq_keys(k)),
+        Op::Project(c) => format!("(kproject {} {})", coq::list(c.iter().map(|&x| coq::z(x as i64))), coq::zu(hash_value(&Value::Null))),
+    }
+}
+fn ops_coq(os: &[Op]) -> String {
+    coq::list(os.iter().map(op_coq))
+}
+fn op_real(o: &Op) -> Box<dyn PushOperator> {
+    match o {
+        Op::Filter(p) => Box::new(pu::FilterPushOperator::new(pred_real(p))),
+        Op::Limit(n) => Box::new(pu::LimitPushOperator::new(*n)),
+        Op::Distinct(None) => Box::new(pu::DistinctPushOperator::new()),
+        Op::Distinct(Some(c)) => Box::new(pu::DistinctPushOperator::on_columns(c.clone())),
+        Op::Sort(k) => Box::new(pu::SortPushOperator::new(push_keys(k))),
+        Op::Project(c) => Box::new(pu::ProjectPushOperator::select_columns(c)),
+    }
+}
+/// the simple list specification (harness baseline)
+fn op_spec(o: &Op, rows: &[Row]) -> Vec<Row> {
+    match o {
+        Op::Filter(p) => rows.iter().filter(|r| pred_eval(p, r)).cloned().collect(),
+        Op::Limit(n) => rows.iter().take(*n).cloned().collect(),
+        Op::Distinct(cols) => {
+            let mut seen: Vec<Vec<V>> = vec![];
+            let mut out = vec![];
+            for r in rows {
+                let k: Vec<V> = match cols {
+                    None => r.clone(),
+                    Some(c) => c.iter().map(|&i| r.get(i).cloned().unwrap_or(V::Null)).collect(),
+                };
+                if !seen.contains(&k) {
+                    seen.push(k);
+                    out.push(r.clone());
+                }
+            }
+            out
+        }
+        Op::Sort(k) => stable_sorted(k, rows),
+        Op::Project(c) => rows.iter().map(|r| c.iter().map(|&i| r.get(i).cloned().unwrap_or(V::Null)).collect()).collect(),
+    }
+}
+fn gen_op(r: &mut Rng, kind: u8, which: u64, nrows: usize) -> Op {
+    match which {
+        0 => Op::Filter(gen_pred(r, kind, 0)),
+        1 => Op::Limit(match r.below(6) {
+            0 => 0,
+            1 => 1,
+            2 => nrows,
+            3 => nrows + 1,
+            4 => nrows.saturating_sub(1),
+            _ => r.below(nrows as u64 + 3) as usize,
+        }),
+        2 => Op::Distinct(match r.below(3) {
+            0 => None,
+            1 => Some(vec![0]),
+            _ => Some(vec![0, 2]),
+        }),
+        3 => {
+            let mut k = gen_keys(r);
+            if k.is_empty() {
+                k.push(Key { col: 0, asc: true, nf: false });
+            }
+            Op::Sort(k)
+        }
+        _ => Op::Project(r.pick(&[vec![0usize], vec![1, 0], vec![2, 2, 1], vec![0, 1, 2, 5]]).clone()),
+    }
+}
+
 struct VecOp {
     chunks: Vec<DataChunk>,
     pos: usize,
@@ -40,146 +968,1021 @@ impl Operator for VecOp {
         "VecOp"
     }
 }
+/// the pull twin of a push operator over the same chunks
+fn pull_twin(o: &Op, chunks: &[DataChunk], ncols: usize) -> Option<Vec<Row>> {
+    let child = Box::new(VecOp { chunks: chunks.to_vec(), pos: 0 });
+    let schema = vec![LogicalType::Any; ncols];
+    let mut op: Box<dyn Operator> = match o {
+        Op::Filter(p) => Box::new(pull::FilterOperator::new(child, Box::new(PullPred(pred_real(p))))),
+        Op::Limit(n) => Box::new(pull::LimitOperator::new(child, *n, schema)),
+        Op::Distinct(None) => Box::new(pull::DistinctOperator::new(child, schema)),
+        Op::Distinct(Some(c)) => Box::new(pull::DistinctOperator::on_columns(child, c.clone(), schema)),
+        Op::Sort(k) => Box::new(pull::SortOperator::new(child, pull_keys(k), schema)),
+        Op::Project(_) => return None,
+    };
+    let mut out = vec![];
+    while let Some(c) = op.next().ok()? {
+        out.extend(rows_of(&c));
+    }
+    Some(out)
+}
 
-fn main() {
-    // 1. merge stability
-    let runs: Vec<Vec<Vec<Value>>> = (0..5).map(|i| vec![vec![Value::Int64(1), Value::Int64(i)], vec![Value::Int64(1), Value::Int64(i + 10)]]).collect();
-    let r = merge_sorted_runs(runs, &[grafeo_core::execution::parallel::SortKey::ascending(0)]).unwrap();
-    println!("1 merge ties: {:?}", r.iter().map(|x| x[1].clone()).collect::<Vec<_>>());
-    // 2. accumulator mixed
-    let vals = [Value::Int64(1), Value::Float64(0.5), Value::Int64(0)];
-    let mut a = MergeableAccumulator::new();
-    for v in &vals {
-        a.add(v);
+fn case_push(r: &mut Rng, out: &mut Out, which: u64, forced: Option<(Op, Vec<Vec<Row>>)>) {
+    let (op, cs) = match forced {
+        Some(x) => x,
+        None => {
+            let n = gen_size(r, 24);
+            let (rows, kind) = gen_table(r, n);
+            (gen_op(r, kind, which, n), gen_chunking(r, &rows))
+        }
+    };
+    let all = flat(&cs);
+    let dchunks: Vec<DataChunk> = cs.iter().map(|c| to_chunk(c, 3)).collect();
+    let mut real = op_real(&op);
+    let mut obs: Vec<(Vec<Vec<Row>>, bool)> = vec![];
+    for c in &dchunks {
+        let mut sink = CollectorSink::new();
+        let cont = real.push(c.clone(), &mut sink).unwrap();
+        obs.push((rows_of_chunks(sink.chunks()), cont));
     }
-    let mut b = MergeableAccumulator::new();
-    b.add(&vals[0]);
-    let mut c = MergeableAccumulator::new();
-    c.add(&vals[1]);
-    c.add(&vals[2]);
-    b.merge(&c);
-    println!("2 seq min {:?} par min {:?}", a.finalize_min(), b.finalize_min());
-    // 3. chunk source with empty chunk
-    let cs = ParallelChunkSource::new(vec![chunk1(&[Value::Int64(1), Value::Int64(2)]), chunk1(&[]), chunk1(&[Value::Int64(3), Value::Int64(4)])]);
-    println!("3 total rows {:?}", cs.total_rows());
-    let ms = cs.generate_morsels(1024, 0);
-    let mut got = vec![];
-    for m in &ms {
-        let mut p = cs.create_partition(m);
-        while let Some(c) = p.next_chunk(2048).unwrap() {
-            got.extend(rows_of(&[c]));
+    let mut sink = CollectorSink::new();
+    real.finalize(&mut sink).unwrap();
+    let fin = rows_of_chunks(sink.chunks());
+    // Pipeline::execute semantics: stop pushing at the first false
+    let mut driven: Vec<Row> = vec![];
+    for (o, cont) in &obs {
+        driven.extend(flat(o));
+        if !*cont {
+            break;
         }
     }
-    println!("3 chunk source rows {:?}", got);
-    // 4. filter on 70000 rows
-    let big: Vec<Value> = (0..70000).map(Value::Int64).collect();
-    let mut f = FilterPushOperator::column_compare(0, CompareOp::Ge, Value::Int64(0));
-    let mut sink = CollectorSink::new();
-    let r = std::panic::catch_unwind(std::panic::AssertUnwindSafe(|| f.push(chunk1(&big), &mut sink)));
-    let out = rows_of(sink.chunks());
-    println!("4 filter 70000 -> {:?} rows {} row[65536]={:?}", r.is_ok(), out.len(), out.get(65536));
-    // 5. pull distinct with 3000 unique
-    let vals: Vec<Value> = (0..3000).map(Value::Int64).collect();
-    let mut d = DistinctOperator::new(Box::new(VecOp { chunks: vec![chunk1(&vals)], pos: 0 }), vec![LogicalType::Int64]);
-    let mut n = 0;
-    while let Some(c) = d.next().unwrap() {
-        n += c.row_count();
+    driven.extend(flat(&fin));
+    let spec = op_spec(&op, &all);
+    let twin = pull_twin(&op, &dchunks, 3);
+    let class = hash_class(&all);
+    let good = driven == spec && twin.as_ref().is_none_or(|t| *t == spec);
+    let k8 = !good && class == 1 && matches!(op, Op::Distinct(_));
+    out.emit(&Case {
+        kind: format!("push_{}", ["filter", "limit", "distinct", "sort", "project"][which as usize]),
+        input: format!("op={:?} chunks={:?}", op, cs),
+        coq: Some(format!(
+            "chk_push {} {} {} {} && chk_spec {} {} {}",
+            op_coq(&op),
+            coq_hchunks(&cs),
+            coq::list(obs.iter().map(|(o, c)| format!("({}, {})", coq_chunks(o), c))),
+            coq_chunks(&fin),
+            op_coq(&op),
+            coq_hchunks(&cs),
+            // with the NULL/FALSE hash collision the model's DISTINCT (on the supplied hashes) is the code's, not the baseline's
+            if class == 1 && matches!(op, Op::Distinct(_)) { coq_rows(&driven) } else { coq_rows(&spec) }
+        )),
+        show: Some(format!("show_push {} {}", op_coq(&op), coq_hchunks(&cs))),
+        oracle: if class == 2 { Oracle::Na } else { ok_or(good) },
+        msg: if good { String::new() } else { format!("push={:?} pull={:?} spec={:?}", driven, twin, spec) },
+        kid: if k8 { Some("C17-K8".into()) } else { None },
+        kcoq: if k8 { Some(k8_term(&all)) } else { None },
+        nontrivial: cs.iter().filter(|c| !c.is_empty()).count() >= 2 && has_dup_keys(&[Key { col: 0, asc: true, nf: true }], &all),
+        imp: format!("{:?} fin={:?}", obs, fin),
+        tags: vec![format!("chunks:{}", cs.len().min(6)), hash_tag(class)],
+        ..Default::default()
+    });
+}
+
+/// chunks above 65535 rows (SelectionVector indices are u16) and pull DISTINCT above 2048 uniques
+fn case_big_chunk(out: &mut Out, which: u64) {
+    let nrows = 70000usize;
+    let vals: Vec<Value> = (0..nrows as i64).map(Value::Int64).collect();
+    let chunk = DataChunk::new(vec![ValueVector::from_values(&vals)]);
+    let (name, kid, kterm, good, imp): (&str, &str, String, bool, String) = match which {
+        0 | 1 => {
+            let mut op: Box<dyn PushOperator> = if which == 0 {
+                Box::new(pu::FilterPushOperator::column_compare(0, pu::CompareOp::Ge, Value::Int64(0)))
+            } else {
+                Box::new(pu::DistinctPushOperator::new())
+            };
+            let mut sink = CollectorSink::new();
+            let res = catch(std::panic::AssertUnwindSafe(|| op.push(chunk.clone(), &mut sink).is_ok()));
+            let got: Vec<i64> = sink.chunks().iter().flat_map(|c| rows_of(c)).map(|r| if let V::Int(i) = r[0] { i } else { -1 }).collect();
+            let good = res == Ok(true) && got == (0..nrows as i64).collect::<Vec<_>>();
+            (
+                if which == 0 { "big_chunk_filter" } else { "big_chunk_distinct" },
+                "C17-K3",
+                format!("k_chunk_over_u16 {}", coq::z(nrows as i64)),
+                good,
+                format!("rows={} row[65536]={:?}", got.len(), got.get(65536)),
+            )
+        }
+        2 => {
+            let mut op = pu::LimitPushOperator::new(66000);
+            let mut sink = CollectorSink::new();
+            let res = catch(std::panic::AssertUnwindSafe(|| op.push(chunk.clone(), &mut sink).is_ok()));
+            ("big_chunk_limit", "C17-K3", format!("k_chunk_over_u16 {}", coq::z(nrows as i64)), res == Ok(true) && sink.row_count() == 66000, format!("{:?} rows={}", res, sink.row_count()))
+        }
+        _ => {
+            let uniq = 3000usize;
+            let c = DataChunk::new(vec![ValueVector::from_values(&vals[..uniq])]);
+            let mut d = pull::DistinctOperator::new(Box::new(VecOp { chunks: vec![c.clone()], pos: 0 }), vec![LogicalType::Any]);
+            let mut n = 0;
+            while let Ok(Some(c)) = d.next() {
+                n += c.row_count();
+            }
+            let mut p = pu::DistinctPushOperator::new();
+            let mut sink = CollectorSink::new();
+            p.push(c, &mut sink).unwrap();
+            ("pull_distinct_3000", "C17-K4", format!("k_pull_distinct_over_2048 {}", coq::z(uniq as i64)), n == uniq && sink.row_count() == uniq, format!("pull={} push={}", n, sink.row_count()))
+        }
+    };
+    out.emit(&Case {
+        kind: name.into(),
+        input: format!("one chunk, rows 0..{}", if which == 3 { 3000 } else { nrows }),
+        oracle: ok_or(good),
+        msg: if good { String::new() } else { format!("output differs from the specification: {}", imp) },
+        kid: if good { None } else { Some(kid.into()) },
+        kcoq: if good { None } else { Some(kterm) },
+        nontrivial: true,
+        imp,
+        tags: vec!["corpus".into()],
+        ..Default::default()
+    });
+}
+
+// ---------------------------------------------------------------------------------------- Pipeline
+struct CountingSource {
+    inner: VectorSource,
+    calls: usize,
+}
+impl Source for CountingSource {
+    fn next_chunk(&mut self, chunk_size: usize) -> Result<Option<DataChunk>, OperatorError> {
+        self.calls += 1;
+        if self.calls > 20000 {
+            return Err(OperatorError::Execution("diverge".into()));
+        }
+        self.inner.next_chunk(chunk_size)
     }
-    println!("5 pull distinct 3000 unique -> {}", n);
-    // 6. limit then filter in a Pipeline
-    let src = VectorSource::single_column((0..10).map(Value::Int64).collect());
-    struct Shared(Arc<parking_lot::Mutex<Vec<DataChunk>>>);
-    impl Sink for Shared {
-        fn consume(&mut self, c: DataChunk) -> Result<bool, grafeo_core::execution::operators::OperatorError> {
+    fn reset(&mut self) {
+        self.inner.reset()
+    }
+    fn name(&self) -> &'static str {
+        "CountingSource"
+    }
+}
+struct SharedSink(Arc<parking_lot::Mutex<Vec<DataChunk>>>);
+impl Sink for SharedSink {
+    fn consume(&mut self, c: DataChunk) -> Result<bool, OperatorError> {
+        if !c.is_empty() {
             self.0.lock().push(c);
-            Ok(true)
         }
-        fn finalize(&mut self) -> Result<(), grafeo_core::execution::operators::OperatorError> {
-            Ok(())
+        Ok(true)
+    }
+    fn finalize(&mut self) -> Result<(), OperatorError> {
+        Ok(())
+    }
+    fn name(&self) -> &'static str {
+        "SharedSink"
+    }
+}
+fn columns_of(rows: &[Row], ncols: usize) -> Vec<Vec<Value>> {
+    (0..ncols).map(|c| rows.iter().map(|r| r[c].val()).collect()).collect()
+}
+
+fn case_pipeline(r: &mut Rng, out: &mut Out, forced: Option<(Vec<Op>, Vec<Row>)>) {
+    let corpus = forced.is_some();
+    let (ops, rows) = match forced {
+        Some(x) => x,
+        None => {
+            let n = gen_size(r, 40);
+            let (rows, kind) = gen_table(r, n);
+            let len = 1 + r.below(3) as usize;
+            let mut ops = vec![];
+            for i in 0..len {
+                let last = i == len - 1;
+                let w = if last { r.below(5) } else { r.below(4) };
+                // a small limit somewhere makes the source cut the input into several chunks
+                let mut o = gen_op(r, kind, w, n);
+                if let Op::Limit(l) = &mut o {
+                    if r.chance(1, 2) {
+                        *l = 1 + r.below(6) as usize;
+                    }
+                }
+                ops.push(o);
+            }
+            (ops, rows)
         }
-        fn name(&self) -> &'static str {
-            "S"
+    };
+    let store = Arc::new(parking_lot::Mutex::new(vec![]));
+    let src = CountingSource { inner: VectorSource::new(columns_of(&rows, 3)), calls: 0 };
+    let mut p = Pipeline::new(Box::new(src), ops.iter().map(op_real).collect(), Box::new(SharedSink(store.clone())));
+    let res = p.execute();
+    let got = rows_of_chunks(&store.lock());
+    let mut spec = rows.clone();
+    for o in &ops {
+        spec = op_spec(o, &spec);
+    }
+    let (obs, good) = match &res {
+        Ok(()) => (format!("(ORows {})", coq_chunks(&got)), flat(&got) == spec),
+        Err(_) => ("ODiverge".to_string(), false),
+    };
+    let class = hash_class(&rows);
+    // mirror of k_inner_limit_hit: an inner LIMIT that the (upper bound of the) input reaches
+    let mut bound = rows.len();
+    let mut inner_limit = false;
+    for o in &ops[..ops.len() - 1] {
+        if let Op::Limit(l) = o {
+            inner_limit |= *l > 0 && *l <= bound;
+            bound = bound.min(*l);
         }
     }
-    let store = Arc::new(parking_lot::Mutex::new(vec![]));
-    let mut p = Pipeline::new(
-        Box::new(src),
-        vec![Box::new(LimitPushOperator::new(1000)), Box::new(FilterPushOperator::column_compare(0, CompareOp::Ge, Value::Int64(0)))],
-        Box::new(Shared(store.clone())),
-    );
-    p.execute().unwrap();
-    println!("6a limit(1000)->filter over 10 rows: {}", rows_of(&store.lock()).len());
-    let store = Arc::new(parking_lot::Mutex::new(vec![]));
-    let src = VectorSource::single_column((0..10).map(Value::Int64).collect());
-    let mut p = Pipeline::new(
-        Box::new(src),
-        vec![Box::new(LimitPushOperator::new(5)), Box::new(FilterPushOperator::column_compare(0, CompareOp::Ge, Value::Int64(0)))],
-        Box::new(Shared(store.clone())),
-    );
-    p.execute().unwrap();
-    println!("6b limit(5)->filter over 10 rows: {}", rows_of(&store.lock()).len());
-    let store = Arc::new(parking_lot::Mutex::new(vec![]));
-    let src = VectorSource::single_column((0..10).map(Value::Int64).collect());
-    let mut p = Pipeline::new(
-        Box::new(src),
-        vec![Box::new(LimitPushOperator::new(10)), Box::new(FilterPushOperator::column_compare(0, CompareOp::Ge, Value::Int64(0)))],
-        Box::new(Shared(store.clone())),
-    );
-    p.execute().unwrap();
-    println!("6c limit(10)->filter over 10 rows: {}", rows_of(&store.lock()).len());
-    // 7. sort with mixed types
-    let mut s = SortPushOperator::ascending(0);
-    let mut sink = CollectorSink::new();
-    let mixed: Vec<Value> = (0..200).map(|i| if i % 3 == 0 { Value::String(format!("s{}", i).into()) } else { Value::Int64(200 - i) }).collect();
-    let r = std::panic::catch_unwind(std::panic::AssertUnwindSafe(|| {
-        s.push(chunk1(&mixed), &mut sink).unwrap();
-        s.finalize(&mut sink).unwrap();
-    }));
-    println!("7 sort mixed types: ok={}", r.is_ok());
-    // 8. limit > 65535
-    let mut l = LimitPushOperator::new(66000);
-    let mut sink = CollectorSink::new();
-    let r = std::panic::catch_unwind(std::panic::AssertUnwindSafe(|| l.push(chunk1(&big), &mut sink)));
-    println!("8 limit 66000 on 70000-row chunk ok={} rows={}", r.is_ok(), sink.row_count());
-    // 9/10 spill files
-    let dir = "/verif/.build/scratch/c17/probe";
-    let _ = std::fs::remove_dir_all(dir);
-    let mgr = Arc::new(SpillManager::new(dir).unwrap());
-    {
-        let mut es = ExternalSort::new(mgr.clone(), 1, vec![grafeo_core::execution::spill::SortKey::ascending(0)]);
-        es.spill_sorted_run(vec![vec![Value::Int64(1)], vec![Value::Int64(3)]]).unwrap();
-        es.spill_sorted_run(vec![vec![Value::Int64(2)]]).unwrap();
-        println!("10 files during: {}", std::fs::read_dir(dir).unwrap().count());
-        let r = es.merge_all(vec![vec![Value::Int64(0)]]).unwrap();
-        println!("10 merged {:?} files after merge: {}", r, std::fs::read_dir(dir).unwrap().count());
-    }
-    println!("10 files after drop: {} active_file_count={} spilled_bytes={}", std::fs::read_dir(dir).unwrap().count(), mgr.active_file_count(), mgr.spilled_bytes());
-    {
-        let mut ps: PartitionedState<i64> = PartitionedState::new(
-            mgr.clone(),
-            4,
-            |v: &i64, w: &mut dyn std::io::Write| w.write_all(&v.to_le_bytes()),
-            |r: &mut dyn std::io::Read| {
-                let mut b = [0u8; 8];
-                r.read_exact(&mut b)?;
-                Ok(i64::from_le_bytes(b))
-            },
-        );
-        for i in 0..20 {
-            ps.insert(vec![Value::Int64(i)], i).unwrap();
+    let (kid, kcoq) = if good {
+        (None, None)
+    } else if res.is_err() {
+        (Some("C17-K7".to_string()), Some(format!("k_pipeline_zero_chunk {} {}", ops_coq(&ops), coq::z(rows.len() as i64))))
+    } else if inner_limit {
+        (Some("C17-K5".to_string()), Some(format!("k_pipeline_inner_limit {} {}", ops_coq(&ops), coq::z(rows.len() as i64))))
+    } else if class == 1 && ops.iter().any(|o| matches!(o, Op::Distinct(_))) {
+        (Some("C17-K8".to_string()), Some(k8_term(&rows)))
+    } else {
+        (None, None)
+    };
+    out.emit(&Case {
+        kind: "pipeline".into(),
+        input: format!("ops={:?} rows={:?}", ops, rows),
+        coq: Some(format!("chk_pipeline {} {} {}", ops_coq(&ops), coq_hrows(&rows), obs)),
+        show: Some(format!("show_pipeline {} {}", ops_coq(&ops), coq_hrows(&rows))),
+        oracle: if class == 2 { Oracle::Na } else { ok_or(good) },
+        msg: if good { String::new() } else if res.is_err() { "Pipeline::execute does not terminate (source asked for >20000 chunks of size 0)".into() } else { format!("pipeline output {:?} differs from the sequential specification {:?}", flat(&got), spec) },
+        kid,
+        kcoq,
+        nontrivial: ops.len() >= 2 && rows.len() >= 2,
+        imp: if res.is_ok() { format!("{:?}", got) } else { "diverges".into() },
+        tags: vec![format!("pipeline:len={}", ops.len()), format!("pipeline:chunks={}", got.len().min(5)), if corpus { "corpus".into() } else { "generated".into() }],
+        ..Default::default()
+    });
+}
+
+// --------------------------------------------------------------- schedules played by the harness
+fn coq_morsels(ms: &[par::Morsel]) -> String {
+    coq::list(ms.iter().map(|m| format!("(mkm {} {} {} {})", coq::zu(m.id as u64), coq::zu(m.source_id as u64), coq::zu(m.start_row as u64), coq::zu(m.end_row as u64))))
+}
+fn gen_schedule(r: &mut Rng, nm: usize, workers: usize) -> Vec<Vec<usize>> {
+    // a random global taking order, a random worker for every morsel, a random publication order
+    let mut order: Vec<usize> = (0..nm).collect();
+    if r.chance(3, 4) {
+        for i in (1..nm).rev() {
+            order.swap(i, r.below(i as u64 + 1) as usize);
         }
-        ps.spill_largest().unwrap();
-        ps.spill_largest().unwrap();
-        println!("9 files with 2 spilled partitions: {}", std::fs::read_dir(dir).unwrap().count());
-        ps.cleanup();
-        println!("9 files after PartitionedState::cleanup: {} bytes={}", std::fs::read_dir(dir).unwrap().count(), mgr.spilled_bytes());
-        for i in 0..20 {
-            ps.insert(vec![Value::Int64(i)], i).unwrap();
-        }
-        ps.spill_largest().unwrap();
     }
-    println!("9 files after PartitionedState drop: {} bytes={}", std::fs::read_dir(dir).unwrap().count(), mgr.spilled_bytes());
+    let mut per: Vec<Vec<usize>> = vec![vec![]; workers];
+    for m in order {
+        per[r.below(workers as u64) as usize].push(m);
+    }
+    for i in (1..workers).rev() {
+        per.swap(i, r.below(i as u64 + 1) as usize);
+    }
+    per
+}
+
+fn case_sched(r: &mut Rng, out: &mut Out) {
+    let n = match r.below(6) {
+        0 => 0,
+        1 => 1,
+        _ => r.below(50) as usize,
+    };
+    let (rows, kind) = gen_table(r, n);
+    let msize = 1 + r.below(12) as usize;
+    let csize = 1 + r.below(6) as usize;
+    let workers = 1 + r.below(16) as usize;
+    let which = r.below(5);
+    let op: Option<Op> = match which {
+        0 => None,
+        1 => Some(gen_op(r, kind, 0, n)),
+        2 => Some(gen_op(r, kind, 2, n)),
+        3 => Some(gen_op(r, kind, 3, n)),
+        _ => Some(gen_op(r, kind, 4, n)),
+    };
+    let source = par::ParallelVectorSource::new(columns_of(&rows, 3));
+    let ms = source.generate_morsels(msize, 0);
+    let sch = gen_schedule(r, ms.len(), workers);
+    // the workers, one after the other in publication order
+    let mut per_worker: Vec<Vec<DataChunk>> = vec![];
+    for mine in &sch {
+        let mut real = op.as_ref().map(op_real);
+        let mut sink = CollectorSink::new();
+        for &mi in mine {
+            let mut part = source.create_partition(&ms[mi]);
+            while let Some(chunk) = part.next_chunk(csize).unwrap() {
+                match &mut real {
+                    Some(o) => {
+                        let _ = o.push(chunk, &mut sink).unwrap();
+                    }
+                    None => {
+                        sink.consume(chunk).unwrap();
+                    }
+                }
+            }
+        }
+        if let Some(o) = &mut real {
+            o.finalize(&mut sink).unwrap();
+        }
+        per_worker.push(sink.into_chunks());
+    }
+    let ops: Vec<Op> = op.iter().cloned().collect();
+    let sch_coq = coq::list(sch.iter().map(|w| coq::list(w.iter().map(|&i| coq::z(i as i64)))));
+    let class = hash_class(&rows);
+    let spec = op.as_ref().map_or(rows.clone(), |o| op_spec(o, &rows));
+    let args = format!("{} {} {} {}", coq::z(csize as i64), coq_hrows(&rows), coq_morsels(&ms), sch_coq);
+    let tags = vec![format!("sched:workers={}", workers.min(17)), format!("sched:morsels={}", ms.len().min(8)), format!("sched:op={}", which)];
+    let nt = ms.len() >= 2 && sch.iter().filter(|w| !w.is_empty()).count() >= 2;
+    match &op {
+        Some(Op::Sort(keys)) => {
+            let ocs = *r.pick(&[1usize, 4, 2048]);
+            let runs: Vec<Vec<DataChunk>> = per_worker.iter().flatten().map(|c| vec![c.clone()]).collect();
+            let parts: Vec<Vec<Row>> = per_worker.iter().flatten().map(rows_of).collect();
+            let merged = rows_of_chunks(&par::merge_sorted_chunks(runs, &par_keys(keys), ocs).unwrap());
+            let f = flat(&merged);
+            let (oracle, kid, kcoq, msg) = if f == spec {
+                (Oracle::Ok, None, None, String::new())
+            } else if is_sorted(keys, &f) && same_bag(&f, &rows) {
+                (Oracle::Fail, Some("C17-K1".to_string()), Some(format!("k_sched_sort_ties {} {}", coq_keys(keys), args)), "per-worker sorted runs merged: ties not in the sequential order".to_string())
+            } else {
+                (Oracle::Fail, None, None, "merged result is not the sorted input".to_string())
+            };
+            out.emit(&Case {
+                kind: "sched_sort".into(),
+                input: format!("keys={:?} morsel={} chunk={} rows={:?} schedule={:?}", keys, msize, csize, rows, sch),
+                coq: Some(format!("chk_sched_sort {} {} {} (Some {})", coq_keys(keys), args, coq::z(ocs as i64), coq_chunks(&merged))),
+                oracle,
+                kid,
+                kcoq,
+                msg,
+                nontrivial: nt && has_dup_keys(keys, &rows),
+                imp: format!("runs={:?} merged={:?}", parts, merged),
+                tags,
+                ..Default::default()
+            });
+        }
+        _ => {
+            let is_distinct = matches!(op, Some(Op::Distinct(_)));
+            let got = rows_of_chunks(&par::concat_parallel_results(per_worker.clone()));
+            let f = flat(&got);
+            // per-worker DISTINCT needs the merge phase; with distinct on all columns merge_distinct_results finishes it
+            let good = if let Some(Op::Distinct(cols)) = &op {
+                if cols.is_none() {
+                    let m = flat(&rows_of_chunks(&par::merge_distinct_results(vec![per_worker.iter().flatten().cloned().collect()]).unwrap()));
+                    same_bag(&m, &spec)
+                } else {
+                    // one representative per key, whichever worker saw it first
+                    let k = cols.clone().unwrap();
+                    let keyset = |x: &[Row]| {
+                        let mut s: Vec<String> = x.iter().map(|r| format!("{:?}", k.iter().map(|&i| r[i].clone()).collect::<Vec<_>>())).collect();
+                        s.sort();
+                        s.dedup();
+                        s
+                    };
+                    keyset(&f) == keyset(&spec) && f.iter().all(|x| rows.contains(x))
+                }
+            } else {
+                same_bag(&f, &spec)
+            };
+            out.emit(&Case {
+                kind: if is_distinct { "sched_distinct".into() } else { "sched".into() },
+                input: format!("op={:?} morsel={} chunk={} rows={:?} schedule={:?}", op, msize, csize, rows, sch),
+                coq: Some(format!("chk_sched {} {} {}", ops_coq(&ops), args, coq_chunks(&got))),
+                show: Some(format!("show_sched {} {}", ops_coq(&ops), args)),
+                oracle: if class == 2 { Oracle::Na } else { ok_or(good) },
+                msg: if good { String::new() } else { "bag of the scheduled run differs from the sequential result".into() },
+                kid: if !good && class == 1 && is_distinct { Some("C17-K8".into()) } else { None },
+                kcoq: if !good && class == 1 && is_distinct { Some(k8_term(&rows)) } else { None },
+                nontrivial: nt,
+                imp: format!("{:?}", got),
+                tags,
+                ..Default::default()
+            });
+        }
+    }
+}
+
+// --------------------------------------------------------------------------- the real ParallelPipeline
+fn case_parallel(r: &mut Rng, out: &mut Out, cnt: i64, which: u64) {
+    let (a, b, m) = (r.range(1, 50), r.range(0, 50), r.range(2, 40));
+    let workers = 1 + r.below(16) as usize;
+    let p = r.below(4);
+    let chunk_size = *r.pick(&[1usize, 7, 100, 1024, 2048, 5000]);
+    let chunk_size = if cnt > 5000 && chunk_size < 100 { 100 } else { chunk_size };
+    let rows = gen_compact(cnt, a, b, m);
+    let vrows: Vec<Row> = rows.iter().map(|x| from_vrow(x)).collect();
+    let thr = r.range(0, m);
+    let filt = Op::Filter(Pred::Cmp(1, r.below(6) as u8, V::Int(thr)));
+    let ops: Vec<Op> = match which {
+        0 => vec![],
+        1 => vec![filt.clone()],
+        2 => vec![filt.clone(), Op::Project(vec![0])],
+        3 => vec![Op::Distinct(Some(vec![1]))],
+        4 => vec![Op::Sort(vec![Key { col: 1, asc: r.chance(1, 2), nf: false }, Key { col: 0, asc: true, nf: false }])],
+        _ => vec![Op::Limit(r.below(cnt.max(1) as u64 + 5) as usize)],
+    };
+    let cols: Vec<Vec<Value>> = (0..2).map(|c| rows.iter().map(|x| x[c].clone()).collect()).collect();
+    let use_chunks = r.chance(1, 3);
+    let source: Arc<dyn par::ParallelSource> = if use_chunks {
+        // ParallelChunkSource over a random chunking with empty chunks in between
+        let mut cs = vec![];
+        let mut i = 0usize;
+        while i < vrows.len() {
+            if r.chance(1, 5) {
+                cs.push(to_chunk(&[], 2));
+            }
+            let l = 1 + r.below(3000) as usize;
+            let e = (i + l).min(vrows.len());
+            cs.push(to_chunk(&vrows[i..e], 2));
+            i = e;
+        }
+        Arc::new(par::ParallelChunkSource::new(cs))
+    } else {
+        Arc::new(par::ParallelVectorSource::new(cols))
+    };
+    let mut factory = par::CloneableOperatorFactory::new();
+    for o in &ops {
+        let o = o.clone();
+        factory = factory.with_operator(move || op_real(&o));
+    }
+    let config = par::ParallelPipelineConfig { num_workers: workers, morsel_size: 17, chunk_size, preserve_order: false, pressure_level: pressure(p) };
+    let msize = config.effective_morsel_size();
+    let res = par::ParallelPipeline::new(source, Arc::new(factory), config).execute().unwrap();
+    let nm = if cnt == 0 { 0 } else { (cnt as usize + msize - 1) / msize };
+    let got: Vec<Row> = res.chunks.iter().flat_map(rows_of).collect();
+    let mut spec = vrows.clone();
+    for o in &ops {
+        spec = op_spec(o, &spec);
+    }
+    let tags = vec![
+        format!("par:workers={}", workers),
+        format!("par:morsel={}", msize),
+        format!("par:morsels={}", nm.min(5)),
+        format!("par:chain={}", which),
+        (if use_chunks { "par:chunk-source" } else { "par:vector-source" }).to_string(),
+    ];
+    let base = res.morsels_processed == nm && res.rows_processed == cnt as usize;
+    let id = |x: &Row| if let V::Int(i) = x[0] { i } else { -1 };
+    let (coq_term, good, imp): (Option<String>, bool, String) = match which {
+        0 | 1 | 2 => {
+            let mut ids: Vec<i64> = got.iter().map(id).collect();
+            ids.sort();
+            let good = base && ids == spec.iter().map(id).collect::<Vec<_>>() && same_bag(&got, &spec);
+            let term = if cnt <= 3000 {
+                format!("chk_par_ids {} {} {} {} {} {}", ops_coq(&ops), coq::z(cnt), coq::z(a), coq::z(b), coq::z(m), coq::zlist_i64(&ids))
+            } else {
+                let sum: i128 = ids.iter().map(|&x| x as i128).sum();
+                let sq: i128 = ids.iter().map(|&x| (x as i128) * (x as i128)).sum();
+                format!("chk_par_sig {} {} {} {} {} {} ({})%Z ({})%Z", ops_coq(&ops), coq::z(cnt), coq::z(a), coq::z(b), coq::z(m), coq::z(ids.len() as i64), sum, sq)
+            };
+            (Some(term), good, format!("{} rows", got.len()))
+        }
+        3 => {
+            // per-worker DISTINCT ON(col 1); the distinct key values must be those of the input
+            let mut ks: Vec<i64> = got.iter().map(|x| if let V::Int(i) = x[1] { i } else { -1 }).collect();
+            ks.sort();
+            ks.dedup();
+            let mut want: Vec<i64> = spec.iter().map(|x| if let V::Int(i) = x[1] { i } else { -1 }).collect();
+            want.sort();
+            (None, base && ks == want && got.iter().all(|x| vrows[id(x) as usize] == *x) && got.len() <= want.len() * workers.max(1), format!("{} rows, {} keys", got.len(), ks.len()))
+        }
+        4 => {
+            // one sorted chunk per worker: merge them with the real merge
+            let Op::Sort(keys) = &ops[0] else { unreachable!() };
+            let runs: Vec<Vec<DataChunk>> = res.chunks.iter().map(|c| vec![c.clone()]).collect();
+            let each_sorted = res.chunks.iter().all(|c| is_sorted(keys, &rows_of(c)));
+            let merged = flat(&rows_of_chunks(&par::merge_sorted_chunks(runs, &par_keys(keys), 2048).unwrap()));
+            (None, base && each_sorted && merged == spec, format!("{} runs", res.chunks.len()))
+        }
+        _ => {
+            let Op::Limit(n) = &ops[0] else { unreachable!() };
+            // LIMIT is per worker: at most workers*n rows, all from the input, at least min(n, cnt)
+            let good = base && got.len() <= workers * n && got.len() >= (*n).min(cnt as usize) && got.iter().all(|x| vrows[id(x) as usize] == *x);
+            (None, good, format!("{} rows for limit {}", got.len(), n))
+        }
+    };
+    out.emit(&Case {
+        kind: "parallel".into(),
+        input: format!("cnt={} a={} b={} m={} ops={:?} workers={} pressure={} chunk_size={} chunk_source={}", cnt, a, b, m, ops, workers, p, chunk_size, use_chunks),
+        coq: coq_term,
+        oracle: ok_or(good),
+        msg: if good { String::new() } else { format!("parallel result differs from the sequential baseline ({}; morsels {} rows {})", imp, res.morsels_processed, res.rows_processed) },
+        nontrivial: nm >= 2 && workers >= 2,
+        imp,
+        tags,
+        ..Default::default()
+    });
+}
+
+// ----------------------------------------------------------------------------------- external sort
+fn dir_count(dir: &str) -> usize {
+    std::fs::read_dir(dir).map(|d| d.count()).unwrap_or(0)
+}
+fn fresh_dir(name: &str) -> String {
+    let d = format!("{}/{}", SCRATCH, name);
+    let _ = std::fs::remove_dir_all(&d);
+    std::fs::create_dir_all(&d).unwrap();
+    d
+}
+
+fn case_merge_all(r: &mut Rng, out: &mut Out, dir: &str, forced: Option<(Vec<Key>, Vec<Vec<Row>>, Vec<Row>)>) {
+    let (keys, runs, mem) = match forced {
+        Some(x) => x,
+        None => {
+            let keys = gen_keys(r);
+            let total = r.below(30) as usize;
+            let (rows, _) = gen_table(r, total);
+            // budgets from "every row its own run" to "everything in memory"
+            let k = match r.below(5) {
+                0 => total,
+                1 => 0,
+                2 => 1,
+                _ => r.below(7) as usize,
+            };
+            let mut runs: Vec<Vec<Row>> = vec![vec![]; k];
+            let mut mem = vec![];
+            let memp = *r.pick(&[0u64, 0, 20, 50]);
+            for (i, row) in rows.into_iter().enumerate() {
+                if k == 0 || r.below(100) < memp {
+                    mem.push(row);
+                } else if k == total {
+                    runs[i].push(row);
+                } else {
+                    runs[r.below(k as u64) as usize].push(row);
+                }
+            }
+            let runs: Vec<Vec<Row>> = runs.iter().filter(|x| !x.is_empty()).map(|x| stable_sorted(&keys, x)).collect();
+            (keys, runs, mem)
+        }
+    };
+    let mgr = Arc::new(sp::SpillManager::new(dir).unwrap());
+    let before = dir_count(dir);
+    let (got, during) = {
+        let mut es = sp::ExternalSort::new(mgr.clone(), 3, spill_keys(&keys));
+        for run in &runs {
+            es.spill_sorted_run(run.iter().map(vrow).collect()).unwrap();
+        }
+        let during = dir_count(dir);
+        let got: Vec<Row> = es.merge_all(mem.iter().map(vrow).collect()).unwrap().iter().map(|x| from_vrow(x)).collect();
+        (got, during)
+    };
+    let after = dir_count(dir);
     drop(mgr);
-    println!("9 files after manager drop: {}", std::fs::read_dir(dir).unwrap().count());
-    let _ = std::fs::remove_dir_all(dir);
+    let all: Vec<Row> = runs.iter().flatten().chain(mem.iter()).cloned().collect();
+    let stable = stable_sorted(&keys, &all);
+    let files_ok = before == 0 && during == runs.len() && after == 0;
+    let (oracle, msg, kid, kcoq) = if !files_ok {
+        (Oracle::Fail, format!("spill files: before={} during={} (runs={}) after drop={}", before, during, runs.len(), after), None, None)
+    } else if got == stable {
+        (Oracle::Ok, String::new(), None, None)
+    } else if is_sorted(&keys, &got) && same_bag(&got, &all) {
+        (
+            Oracle::Fail,
+            "external sort output is sorted but differs from the in-memory (stable) sort in the order of rows with equal keys".into(),
+            Some("C17-K1".to_string()),
+            Some(format!("k_merge_all_ties {} {} {}", coq_keys(&keys), coq_chunks(&runs), coq_rows(&stable_sorted(&keys, &mem)))),
+        )
+    } else {
+        (Oracle::Fail, "external sort output is not a sorted permutation of the input".into(), None, None)
+    };
+    out.emit(&Case {
+        kind: "merge_all".into(),
+        input: format!("keys={:?} runs={:?} mem={:?}", keys, runs, mem),
+        coq: Some(format!("chk_merge_all {} {} {} {}", coq_keys(&keys), coq_chunks(&runs), coq_rows(&mem), coq_rows(&got))),
+        oracle,
+        msg,
+        kid,
+        kcoq,
+        nontrivial: runs.len() + (!mem.is_empty()) as usize >= 2 && has_dup_keys(&keys, &all),
+        imp: format!("{:?} files {}/{}/{}", got, before, during, after),
+        tags: vec![format!("extsort:runs={}", runs.len().min(8)), format!("extsort:mem={}", (!mem.is_empty()) as u8)],
+        ..Default::default()
+    });
+}
+
+fn case_spill_sort(r: &mut Rng, out: &mut Out, dir: &str) {
+    let mut keys = gen_keys(r);
+    if keys.is_empty() {
+        keys.push(Key { col: 0, asc: true, nf: false });
+    }
+    let total = r.below(30) as usize;
+    let (rows, _) = gen_table(r, total);
+    let cs = gen_chunking(r, &rows);
+    let threshold = match r.below(6) {
+        0 => 0,
+        1 => 1,
+        2 => total,
+        3 => total + 1,
+        4 => 100000,
+        _ => r.below(total as u64 + 2) as usize,
+    };
+    let mgr = Arc::new(sp::SpillManager::new(dir).unwrap());
+    let (got, during) = {
+        let mut op = pu::SpillableSortPushOperator::with_spilling(push_keys(&keys), mgr.clone(), threshold);
+        let mut sink = CollectorSink::new();
+        for c in &cs {
+            op.push(to_chunk(c, 3), &mut sink).unwrap();
+        }
+        let during = dir_count(dir);
+        op.finalize(&mut sink).unwrap();
+        (flat(&rows_of_chunks(sink.chunks())), during)
+    };
+    let after = dir_count(dir);
+    drop(mgr);
+    let stable = stable_sorted(&keys, &rows);
+    // the in-memory twin: the same operator without a spill manager, and the plain SortPushOperator
+    let mut plain = pu::SortPushOperator::new(push_keys(&keys));
+    let mut sink = CollectorSink::new();
+    for c in &cs {
+        plain.push(to_chunk(c, 3), &mut sink).unwrap();
+    }
+    plain.finalize(&mut sink).unwrap();
+    let inmem = flat(&rows_of_chunks(sink.chunks()));
+    let cs_coq = coq_chunks(&cs);
+    let (oracle, msg, kid, kcoq) = if after != 0 {
+        (Oracle::Fail, format!("{} spill files left after the operator was dropped", after), None, None)
+    } else if inmem != stable {
+        (Oracle::Fail, "in-memory SortPushOperator differs from the stable sort".into(), None, None)
+    } else if got == inmem {
+        (Oracle::Ok, String::new(), None, None)
+    } else if is_sorted(&keys, &got) && same_bag(&got, &rows) {
+        (
+            Oracle::Fail,
+            "spilling sort differs from the in-memory sort in the order of rows with equal keys".into(),
+            Some("C17-K1".to_string()),
+            Some(format!("k_spill_sort_ties {} {} {}", coq_keys(&keys), coq::z(threshold as i64), cs_coq)),
+        )
+    } else {
+        (Oracle::Fail, "spilling sort output is not a sorted permutation of the input".into(), None, None)
+    };
+    out.emit(&Case {
+        kind: "spill_sort".into(),
+        input: format!("keys={:?} threshold={} chunks={:?}", keys, threshold, cs),
+        coq: Some(format!("chk_spill_sort {} {} {} {}", coq_keys(&keys), coq::z(threshold as i64), cs_coq, coq_rows(&got))),
+        show: Some(format!("show_spill_sort {} {} {}", coq_keys(&keys), coq::z(threshold as i64), cs_coq)),
+        oracle,
+        msg,
+        kid,
+        kcoq,
+        nontrivial: during >= 2 && has_dup_keys(&keys, &rows),
+        imp: format!("{:?} runs_on_disk={}", got, during),
+        tags: vec![format!("spill:runs={}", during.min(8)), (if threshold == 0 { "spill:threshold=0" } else if threshold > total { "spill:unlimited" } else { "spill:threshold-mid" }).to_string()],
+        ..Default::default()
+    });
+}
+
+// ------------------------------------------------------------------------------------- spill files
+fn i64_ser(v: &i64, w: &mut dyn std::io::Write) -> std::io::Result<()> {
+    w.write_all(&v.to_le_bytes())
+}
+fn i64_de(r: &mut dyn std::io::Read) -> std::io::Result<i64> {
+    let mut b = [0u8; 8];
+    r.read_exact(&mut b)?;
+    Ok(i64::from_le_bytes(b))
+}
+
+fn case_files(r: &mut Rng, out: &mut Out, dir: &str, forced: Option<Vec<u8>>) {
+    // ops: 0 SpillRun 1 SortDrop 2 PartSpill 3 PartReload 4 PartDrain 5 PartCleanup 6 MgrCleanup
+    let corpus = forced.is_some();
+    let script: Vec<u8> = forced.unwrap_or_else(|| (0..1 + r.below(10)).map(|_| r.below(7) as u8).collect());
+    let mgr = Arc::new(sp::SpillManager::new(dir).unwrap());
+    let mut es = sp::ExternalSort::new(mgr.clone(), 1, vec![sp::SortKey::ascending(0)]);
+    let nparts = 4usize;
+    let mut ps: sp::PartitionedState<i64> = sp::PartitionedState::new(mgr.clone(), nparts, i64_ser, i64_de);
+    for i in 0..40 {
+        ps.insert(vec![Value::Int64(i)], i).unwrap();
+    }
+    let mut spilled: Vec<usize> = vec![]; // partitions on disk, oldest first
+    let mut done = vec![];
+    let mut obs = vec![];
+    for &o in &script {
+        let applied = match o {
+            0 => {
+                es.spill_sorted_run(vec![vec![Value::Int64(1)], vec![Value::Int64(2)]]).unwrap();
+                true
+            }
+            1 => {
+                es.cleanup();
+                true
+            }
+            2 => match (0..nparts).find(|i| !spilled.contains(i)) {
+                Some(i) => {
+                    ps.spill_partition(i).unwrap();
+                    spilled.push(i);
+                    true
+                }
+                None => false,
+            },
+            3 => {
+                if spilled.is_empty() {
+                    false
+                } else {
+                    let i = spilled.remove(0);
+                    // a key of partition i: touching it reloads the partition
+                    let k = (0..40).find(|&k| ps.partition_for(&[Value::Int64(k)]) == i).unwrap();
+                    let _ = ps.get(&[Value::Int64(k)]).unwrap();
+                    true
+                }
+            }
+            4 => {
+                let _ = ps.drain_all().unwrap();
+                spilled.clear();
+                for i in 0..40 {
+                    ps.insert(vec![Value::Int64(i)], i).unwrap();
+                }
+                true
+            }
+            5 => {
+                ps.cleanup();
+                spilled.clear();
+                for i in 0..40 {
+                    ps.insert(vec![Value::Int64(i)], i).unwrap();
+                }
+                true
+            }
+            _ => {
+                // SpillManager::cleanup removes every listed file; only done while no partition is on
+                // disk (a later reload of a removed partition file would be an I/O error, not a spill-file question)
+                if spilled.is_empty() {
+                    mgr.cleanup().unwrap();
+                    true
+                } else {
+                    false
+                }
+            }
+        };
+        if applied {
+            done.push(o);
+            obs.push((dir_count(dir) as i64, mgr.active_file_count() as i64));
+        }
+    }
+    drop(ps);
+    drop(es);
+    let left_before_mgr_drop = dir_count(dir);
+    drop(mgr);
+    let left = dir_count(dir);
+    let names = ["FSpillRun", "FSortDrop", "FPartSpill", "FPartReload", "FPartDrain", "FPartCleanup", "FMgrCleanup"];
+    let ops_coq = coq::list(done.iter().map(|&o| names[o as usize].to_string()));
+    // property: once the operators are gone (dropped) no spill file is left, without waiting for the manager
+    let good = left_before_mgr_drop == 0 && left == 0;
+    // the script with the final drops of the partitioned state and of the sort appended, for the class predicate
+    let full = coq::list(done.iter().map(|&o| names[o as usize].to_string()).chain(["FPartCleanup".to_string(), "FSortDrop".to_string()]));
+    out.emit(&Case {
+        kind: "files".into(),
+        input: format!("{:?}", done.iter().map(|&o| names[o as usize]).collect::<Vec<_>>()),
+        coq: Some(format!("chk_files {} {}", ops_coq, coq::list(obs.iter().map(|(a, b)| format!("({}, {})", coq::z(*a), coq::z(*b)))))),
+        oracle: ok_or(good),
+        msg: if good { String::new() } else { format!("{} spill files still on disk after ExternalSort and PartitionedState were dropped (gone only after the SpillManager was dropped: {})", left_before_mgr_drop, left) },
+        kid: if good { None } else { Some("C17-K6".into()) },
+        kcoq: if good { None } else { Some(format!("k_files_part_cleanup {}", full)) },
+        nontrivial: done.len() >= 2,
+        imp: format!("{:?} left={} then {}", obs, left_before_mgr_drop, left),
+        tags: vec![if corpus { "corpus".into() } else { "generated".into() }],
+        ..Default::default()
+    });
+}
+
+// --------------------------------------------------------------------------------- hash partitions
+fn case_partition(r: &mut Rng, out: &mut Out, dir: &str) {
+    let nparts = *r.pick(&[1usize, 2, 3, 8, 256]);
+    let kind = 1 + r.below(4) as u8;
+    let n = gen_size(r, 30);
+    let dom = *r.pick(&[3u64, 10, 1000]);
+    let kvs: Vec<(Row, i64)> = (0..n).map(|i| (vec![gen_val(r, kind, dom, 10), gen_val(r, 2, 2, 0)], i as i64)).collect();
+    let mgr = Arc::new(sp::SpillManager::new(dir).unwrap());
+    let mut ps: sp::PartitionedState<i64> = sp::PartitionedState::new(mgr.clone(), nparts, i64_ser, i64_de);
+    let mut hash_ok = true;
+    let mut spills = 0;
+    for (k, v) in &kvs {
+        let key = vrow(k);
+        hash_ok &= ps.partition_for(&key) == (hash_key(&key) as usize % nparts);
+        ps.insert(key, *v).unwrap();
+        match r.below(6) {
+            0 => spills += (ps.spill_largest().unwrap() > 0) as usize,
+            1 => spills += (ps.spill_lru().unwrap() > 0) as usize,
+            2 => spills += (ps.spill_partition(r.below(nparts as u64) as usize).unwrap() > 0) as usize,
+            _ => {}
+        }
+    }
+    let sizes: Vec<i64> = if nparts <= 8 { (0..nparts).map(|i| ps.partition_size(i) as i64).collect() } else { vec![] };
+    let it = ps.iter_all().unwrap();
+    let dr = ps.drain_all().unwrap();
+    let left = dir_count(dir);
+    drop(ps);
+    drop(mgr);
+    let norm = |x: &[(Vec<Value>, i64)]| {
+        let mut v: Vec<String> = x.iter().map(|(k, v)| format!("{:?}={}", from_vrow(k), v)).collect();
+        v.sort();
+        v
+    };
+    // baseline: last value per key
+    let mut base: Vec<(Row, i64)> = vec![];
+    for (k, v) in &kvs {
+        if let Some(e) = base.iter_mut().find(|e| e.0 == *k) {
+            e.1 = *v;
+        } else {
+            base.push((k.clone(), *v));
+        }
+    }
+    let mut bn: Vec<String> = base.iter().map(|(k, v)| format!("{:?}={}", k, v)).collect();
+    bn.sort();
+    let good = hash_ok && norm(&it) == bn && norm(&dr) == bn && left == 0;
+    let kv_coq = |k: &Row, v: i64| format!("(({}, {}), {})", coq::zu(hash_key(&vrow(k))), coq_row(k), coq::z(v));
+    let coq_term = if nparts <= 8 {
+        Some(format!(
+            "chk_partition {} {} {} {}",
+            coq::z(nparts as i64),
+            coq::list(kvs.iter().map(|(k, v)| kv_coq(k, *v))),
+            coq::zlist_i64(&sizes),
+            coq::list(dr.iter().map(|(k, v)| kv_coq(&from_vrow(k), *v)))
+        ))
+    } else {
+        None
+    };
+    out.emit(&Case {
+        kind: "partition".into(),
+        input: format!("nparts={} kvs={:?}", nparts, kvs),
+        coq: coq_term,
+        oracle: ok_or(good),
+        msg: if good { String::new() } else { format!("partitioned state lost or duplicated entries (hash_ok={} files left={})", hash_ok, left) },
+        nontrivial: spills >= 1 && base.len() < kvs.len(),
+        imp: format!("sizes={:?} drained={}", sizes, dr.len()),
+        tags: vec![format!("part:n={}", nparts), format!("part:spills={}", spills.min(4))],
+        ..Default::default()
+    });
+}
+
+/// spilling GROUP BY against the in-memory GROUP BY
+fn case_spill_agg(r: &mut Rng, out: &mut Out, dir: &str) {
+    let n = gen_size(r, 60);
+    let kind = 1 + r.below(4) as u8;
+    let dom = *r.pick(&[2u64, 6, 40]);
+    let rows: Vec<Row> = (0..n).map(|_| vec![gen_val(r, kind, dom, 10), gen_val(r, 2, 20, 15), V::Null]).collect();
+    let cs = gen_chunking(r, &rows);
+    let threshold = *r.pick(&[0usize, 1, 2, 5, 1000]);
+    let aggs = || vec![pu::AggregateExpr::count_star(), pu::AggregateExpr::count(1), pu::AggregateExpr::sum(1), pu::AggregateExpr::min(1), pu::AggregateExpr::max(1), pu::AggregateExpr::avg(1)];
+    let run = |op: &mut dyn PushOperator| {
+        let mut sink = CollectorSink::new();
+        for c in &cs {
+            op.push(to_chunk(c, 3), &mut sink).unwrap();
+        }
+        op.finalize(&mut sink).unwrap();
+        let mut v: Vec<String> = sink.chunks().iter().flat_map(|c| c.selected_indices().map(|i| format!("{:?}", (0..c.column_count()).map(|k| c.column(k).unwrap().get_value(i)).collect::<Vec<_>>())).collect::<Vec<_>>()).collect();
+        v.sort();
+        v
+    };
+    let mgr = Arc::new(sp::SpillManager::new(dir).unwrap());
+    let spilled = {
+        let mut op = pu::SpillableAggregatePushOperator::with_spilling(vec![0], aggs(), mgr.clone(), threshold);
+        run(&mut op)
+    };
+    let left = dir_count(dir);
+    drop(mgr);
+    let mut mem = pu::AggregatePushOperator::new(vec![0], aggs());
+    let inmem = run(&mut mem);
+    let good = spilled == inmem && left == 0;
+    let k8 = !good && left == 0 && hash_class(&rows.iter().map(|x| vec![x[0].clone()]).collect::<Vec<_>>()) == 1;
+    out.emit(&Case {
+        kind: "spill_agg".into(),
+        kid: if k8 { Some("C17-K8".into()) } else { None },
+        kcoq: if k8 { Some(k8_term(&rows)) } else { None },
+        input: format!("threshold={} chunks={:?}", threshold, cs),
+        oracle: ok_or(good),
+        msg: if good { String::new() } else { format!("spilling GROUP BY differs from the in-memory one or leaves files ({}): {:?} vs {:?}", left, spilled, inmem) },
+        nontrivial: inmem.len() >= 2 && inmem.len() < n,
+        imp: format!("{} groups", spilled.len()),
+        tags: vec![format!("spill_agg:threshold={}", threshold)],
+        ..Default::default()
+    });
+}
+
+// -------------------------------------------------------------------------------------------- main
+fn main() {
+    quiet_panics();
+    let args = parse_args();
+    let mut r = Rng::new(args.seed);
+    let mut out = Out::create(args.out.as_deref());
+    let thorough = args.tier == "thorough";
+    let scale = |n: usize| (n * args.cases / 2000).max(1);
+    let _ = std::fs::remove_dir_all(SCRATCH);
+    std::fs::create_dir_all(SCRATCH).unwrap();
+
+    // ---- corpus: the witnesses of the _refuted theorems and the boundary tables
+    let i = |k: i64, p: i64| vec![V::Int(k), V::Int(p), V::Null];
+    let k0 = vec![Key { col: 0, asc: true, nf: false }];
+    // C17-K1: five runs, all keys equal
+    case_merge_runs(&mut r, &mut out, Some((k0.clone(), (0..5).map(|j| vec![i(1, j), i(1, j + 10)]).collect())));
+    case_merge_runs(&mut r, &mut out, Some((k0.clone(), (0..4).map(|j| vec![i(1, j)]).collect())));
+    case_merge_runs(&mut r, &mut out, Some((k0.clone(), vec![])));
+    case_merge_runs(&mut r, &mut out, Some((k0.clone(), vec![vec![i(3, 0), i(1, 1)]]))); // one (unsorted) run: identity
+    let d = fresh_dir("corpus");
+    case_merge_all(&mut r, &mut out, &d, Some((k0.clone(), (0..4).map(|j| vec![i(1, j)]).collect(), vec![])));
+    case_merge_all(&mut r, &mut out, &d, Some((k0.clone(), vec![vec![i(1, 0)]], vec![i(1, 1), i(0, 2)])));
+    // C17-K2: MIN over a column mixing Int64 and Float64
+    case_accum(&mut r, &mut out, Some(vec![vec![V::Int(1)], vec![V::Flt(0), V::Int(0)]]));
+    case_accum(&mut r, &mut out, Some(vec![vec![V::Int(1), V::Int(5)], vec![V::Int(0), V::Null]]));
+    // C17-K3 / K4
+    for w in 0..4 {
+        case_big_chunk(&mut out, w);
+    }
+    // C17-K5: LIMIT followed by another operator; C17-K7: LIMIT 0 behind another operator
+    let t10: Vec<Row> = (0..10).map(|j| i(j, j)).collect();
+    let ge0 = Op::Filter(Pred::Cmp(0, 5, V::Int(0)));
+    case_pipeline(&mut r, &mut out, Some((vec![Op::Limit(5), ge0.clone()], t10.clone())));
+    case_pipeline(&mut r, &mut out, Some((vec![Op::Limit(10), ge0.clone()], t10.clone())));
+    case_pipeline(&mut r, &mut out, Some((vec![Op::Limit(1000), ge0.clone()], t10.clone())));
+    case_pipeline(&mut r, &mut out, Some((vec![ge0.clone(), Op::Limit(0)], t10.clone())));
+    case_pipeline(&mut r, &mut out, Some((vec![Op::Limit(0), ge0.clone()], t10.clone())));
+    case_pipeline(&mut r, &mut out, Some((vec![ge0.clone(), Op::Limit(3)], t10.clone())));
+    // C17-K6: PartitionedState cleanup / drop with partitions on disk
+    case_files(&mut r, &mut out, &d, Some(vec![2, 2, 5]));
+    case_files(&mut r, &mut out, &d, Some(vec![2]));
+    case_files(&mut r, &mut out, &d, Some(vec![0, 0, 1, 2, 3, 2, 4]));
+    // morsel boundaries
+    for &(t, s) in &[(0u64, 0u64), (0, 5), (5, 0), (1, 1), (1000, 300), (1000, 250), (1024, 1024), (1025, 1024), (2048, 1024), (2049, 1024), (65537, 65536), (10, u64::MAX), (10, u64::MAX - 10), (10, u64::MAX - 9)] {
+        case_morsels(&mut r, &mut out, Some((t, s)));
+    }
+    for &(cnt, cs) in &[(0i64, 2048usize), (1, 2048), (2047, 2048), (2048, 2048), (2049, 2048), (4096, 2048), (4097, 2048), (10, 3), (10, 1), (7, 100)] {
+        case_rows_to_chunks(&mut r, &mut out, cnt, cs);
+    }
+
+    // ---- generated
+    for _ in 0..scale(330) {
+        case_merge_runs(&mut r, &mut out, None);
+    }
+    for _ in 0..scale(120) {
+        case_merge_chunks(&mut r, &mut out);
+    }
+    for _ in 0..scale(30) {
+        case_concat(&mut r, &mut out);
+    }
+    for _ in 0..scale(110) {
+        case_merge_distinct(&mut r, &mut out);
+    }
+    for _ in 0..scale(230) {
+        case_morsels(&mut r, &mut out, None);
+    }
+    for _ in 0..scale(30) {
+        case_morsel_size(&mut r, &mut out);
+    }
+    for _ in 0..scale(220) {
+        case_accum(&mut r, &mut out, None);
+    }
+    for w in 0..5 {
+        for _ in 0..scale(70) {
+            case_push(&mut r, &mut out, w, None);
+        }
+    }
+    for _ in 0..scale(200) {
+        case_pipeline(&mut r, &mut out, None);
+    }
+    for _ in 0..scale(170) {
+        case_sched(&mut r, &mut out);
+    }
+    let d = fresh_dir("extsort");
+    for _ in 0..scale(130) {
+        case_merge_all(&mut r, &mut out, &d, None);
+    }
+    for _ in 0..scale(110) {
+        case_spill_sort(&mut r, &mut out, &d);
+    }
+    let d = fresh_dir("files");
+    for _ in 0..scale(30) {
+        case_files(&mut r, &mut out, &d, None);
+    }
+    let d = fresh_dir("partition");
+    for _ in 0..scale(60) {
+        case_partition(&mut r, &mut out, &d);
+    }
+    for _ in 0..scale(30) {
+        case_spill_agg(&mut r, &mut out, &d);
+    }
+    // the real ParallelPipeline: sizes around 0, 1, the chunk size and the morsel sizes (1024 .. 65536)
+    let mut sizes: Vec<i64> = vec![0, 1, 2, 1023, 1024, 1025, 2047, 2048, 2049, 3000, 4100];
+    if thorough {
+        sizes.extend([16383, 16384, 16385, 32768, 40000, 65535, 65536, 65537, 70000]);
+    } else {
+        sizes.extend([16385, 65537]);
+    }
+    for (j, &cnt) in sizes.iter().enumerate() {
+        let reps = if thorough { 12 } else { 6 };
+        for k in 0..reps {
+            let which = ((j + k) % 6) as u64;
+            case_parallel(&mut r, &mut out, cnt, which);
+        }
+    }
+    // the spill directories must be empty at the end
+    let mut left = 0;
+    for sub in ["corpus", "extsort", "files", "partition"] {
+        left += dir_count(&format!("{}/{}", SCRATCH, sub));
+    }
+    out.emit(&Case {
+        kind: "scratch_listing".into(),
+        input: SCRATCH.into(),
+        oracle: ok_or(left == 0),
+        msg: if left == 0 { String::new() } else { format!("{} spill files left under {}", left, SCRATCH) },
+        nontrivial: false,
+        imp: format!("{} files", left),
+        ..Default::default()
+    });
+    out.finish();
 }
